@@ -490,4 +490,1304 @@ theorem genEnv_FORCE_TXSTMIN : genEnv s a "flags.FORCE_TXSTMIN" = some (pint ((1
 theorem genEnv_RX_EXT_ADDR : genEnv s a "flags.RX_EXT_ADDR" = some (pint ((512 : Nat) : Int)) := rfl
 end genLookups
 
+
+/-- names never assigned by `GeneralOpts.write` -/
+def genKeys : List String :=
+  ["s", "optflag", "frame_txtime", "ext_address", "txpad", "rxpad", "rx_ext_address", "tx_stmin", "SOL_CAN_ISOTP",
+   "CAN_ISOTP_OPTS", "CAN_ISOTP_TX_STMIN", "flags.EXTEND_ADDR", "flags.TX_PADDING", "flags.RX_PADDING", "flags.FORCE_TXSTMIN",
+   "flags.RX_EXT_ADDR"]
+
+/-- every field of the option struct fits its C type -/
+def optsWf (o : KOpts) : Prop :=
+  o.flags ≤ 0xFFFFFFFF ∧ o.frameTxtime ≤ 0xFFFFFFFF ∧ o.extAddress ≤ 0xFF ∧ o.txpad ≤ 0xFF ∧ o.rxpad ≤ 0xFF ∧ o.rxExtAddress ≤ 0xFF
+
+/-- `env` is a state of the run of `GeneralOpts.write(s, **a)` in which the object `o` holds the integers `o` and
+    `c` calls of `setsockopt` have been recorded -/
+structure GenSt (s : Sock) (a : OptsArgs) (o : KOpts) (c : Nat) (env : Env) : Prop where
+  stat : ∀ k ∈ genKeys, env k = genEnv s a k
+  calls : env "#calls" = some (pint (c : Nat))
+  obj : env "o" = some (.meth "o")
+  f1 : IntAt env "o.optflag" o.flags
+  f2 : IntAt env "o.frame_txtime" o.frameTxtime
+  f3 : IntAt env "o.ext_address" o.extAddress
+  f4 : IntAt env "o.txpad" o.txpad
+  f5 : IntAt env "o.rxpad" o.rxpad
+  f6 : IntAt env "o.rx_ext_address" o.rxExtAddress
+  wf : optsWf o
+
+theorem GenSt.mk' {s : Sock} {a : OptsArgs} {o : KOpts} {c : Nat} {env env' : Env} (h : GenSt s a o c env)
+    {ks : List String} (hoff : EqOff ks env env') (hd : ∀ k ∈ genKeys ++ ["o"], k ∉ ks) (o' : KOpts) (c' : Nat)
+    (calls : env' "#calls" = some (pint (c' : Nat)))
+    (f1 : IntAt env' "o.optflag" o'.flags) (f2 : IntAt env' "o.frame_txtime" o'.frameTxtime)
+    (f3 : IntAt env' "o.ext_address" o'.extAddress) (f4 : IntAt env' "o.txpad" o'.txpad)
+    (f5 : IntAt env' "o.rxpad" o'.rxpad) (f6 : IntAt env' "o.rx_ext_address" o'.rxExtAddress) (wf : optsWf o') :
+    GenSt s a o' c' env' where
+  stat := fun k hk => (hoff k (hd k (List.mem_append_left _ hk))).trans (h.stat k hk)
+  calls := calls
+  obj := (hoff "o" (hd "o" (by simp))).trans h.obj
+  f1 := f1
+  f2 := f2
+  f3 := f3
+  f4 := f4
+  f5 := f5
+  f6 := f6
+  wf := wf
+
+def upd1 (a : OptsArgs) (o : KOpts) : KOpts := if a.optflag.isNone then o else { o with flags := a.optflag.intVal.toNat }
+def upd2 (a : OptsArgs) (o : KOpts) : KOpts :=
+  if a.frameTxtime.isNone then o else { o with frameTxtime := a.frameTxtime.intVal.toNat }
+def upd3 (a : OptsArgs) (o : KOpts) : KOpts :=
+  if a.extAddress.isNone then o else { o with extAddress := a.extAddress.intVal.toNat, flags := orFlag o.flags fEXTEND_ADDR }
+def upd4 (a : OptsArgs) (o : KOpts) : KOpts :=
+  if a.txpad.isNone then o else { o with txpad := a.txpad.intVal.toNat, flags := orFlag o.flags fTX_PADDING }
+def upd5 (a : OptsArgs) (o : KOpts) : KOpts :=
+  if a.rxpad.isNone then o else { o with rxpad := a.rxpad.intVal.toNat, flags := orFlag o.flags fRX_PADDING }
+def upd6 (a : OptsArgs) (o : KOpts) : KOpts :=
+  if a.rxExtAddress.isNone then o else { o with rxExtAddress := a.rxExtAddress.intVal.toNat, flags := orFlag o.flags fRX_EXT_ADDR }
+def upd7 (a : OptsArgs) (o : KOpts) : KOpts :=
+  if a.txStmin.isNone then o else { o with flags := orFlag o.flags fFORCE_TXSTMIN }
+def sock7 (s : Sock) (a : OptsArgs) : Sock :=
+  if a.txStmin.isNone then s else s.sso optTX_STMIN (le32 a.txStmin.intVal.toNat)
+
+def genStmt1 : PStmt :=
+  guarded (.isNotNone (.var "optflag")) "optflag" 4294967295 (.cons (.assign "o.optflag" (.var "optflag")) .nil)
+def genStmt2 : PStmt :=
+  guarded (.isNotNone (.var "frame_txtime")) "frame_txtime" 4294967295 (.cons (.assign "o.frame_txtime" (.var "frame_txtime")) .nil)
+/-- `o.<tgt> = <nm>; o.optflag |= <fl>` -/
+def flagBody (tgt nm fl : String) : PBlock :=
+  .cons (.assign tgt (.var nm)) (.cons (.assign "o.optflag" (.binop .bor (.var "o.optflag") (.var fl))) .nil)
+def genStmt3 : PStmt :=
+  guarded (.isNotNone (.var "ext_address")) "ext_address" 255 (flagBody "o.ext_address" "ext_address" "flags.EXTEND_ADDR")
+def genStmt4 : PStmt :=
+  guarded (.isNotNone (.var "txpad")) "txpad" 255 (flagBody "o.txpad" "txpad" "flags.TX_PADDING")
+def genStmt5 : PStmt :=
+  guarded (.isNotNone (.var "rxpad")) "rxpad" 255 (flagBody "o.rxpad" "rxpad" "flags.RX_PADDING")
+def genStmt6 : PStmt :=
+  guarded (.isNotNone (.var "rx_ext_address")) "rx_ext_address" 255 (flagBody "o.rx_ext_address" "rx_ext_address" "flags.RX_EXT_ADDR")
+def genStmt7 : PStmt :=
+  guarded (.isNotNone (.var "tx_stmin")) "tx_stmin" 4294967295
+    (.cons (.assign "o.optflag" (.binop .bor (.var "o.optflag") (.var "flags.FORCE_TXSTMIN")))
+    (.cons (.expr (.call "s.setsockopt" (.cons (.var "SOL_CAN_ISOTP") (.cons (.var "CAN_ISOTP_TX_STMIN")
+      (.cons (.call "struct.pack" (.cons (.strLit "=L") (.cons (.var "tx_stmin") .nil))) .nil))))) .nil))
+def genTail : PBlock :=
+  .cons (.assign "opt" (.call "struct.pack" (.cons (.strLit "=LLBBBB") (.cons (.var "o.optflag") (.cons (.var "o.frame_txtime")
+    (.cons (.var "o.ext_address") (.cons (.var "o.txpad") (.cons (.var "o.rxpad") (.cons (.var "o.rx_ext_address") .nil)))))))))
+  (.cons (stmtSso "CAN_ISOTP_OPTS") (.cons (.ret (.var "o")) .nil))
+
+/-- the dumped source, statement by statement -/
+theorem gen_body_eq : Src.GeneralOpts_write =
+    .cons stmtAssertSocket (.cons stmtRead (.cons (.assert_ (.isNotNone (.var "o.optflag")))
+    (.cons genStmt1 (.cons genStmt2 (.cons genStmt3 (.cons genStmt4 (.cons genStmt5 (.cons genStmt6 (.cons genStmt7 genTail))))))))) := rfl
+
+theorem flagBody_exec (M : Meths) (env : Env) (tgt nm fl : String) (v : PyVal) (x : PV) (n f : Nat)
+    (hv : env nm = some (.sc (.py v))) (hx : env "o.optflag" = some x) (hxi : asInt x = some (n : Int))
+    (hf : env fl = some (pint (f : Nat))) (ht1 : "o.optflag" ≠ tgt) (ht2 : fl ≠ tgt) :
+    execBlock M env (flagBody tgt nm fl) =
+      .ok (.next ((env.set tgt (.sc (.py v))).set "o.optflag" (pint ((n ||| f : Nat) : Int)))) := by
+  have hx' : (env.set tgt (.sc (.py v))) "o.optflag" = some x := (Env.set_ne _ _ _ _ ht1).trans hx
+  have hf' : (env.set tgt (.sc (.py v))) fl = some (pint (f : Nat)) := (Env.set_ne _ _ _ _ ht2).trans hf
+  simp [flagBody, execBlock, exec_assign_var M env _ _ _ hv, exec_orflag M _ fl x n f hx' hxi hf']
+
+
+theorem gen_stage1 (M : Meths) {s : Sock} {a : OptsArgs} {o : KOpts} {c : Nat} {env : Env} (h : GenSt s a o c env) :
+    ∃ env', execStmt M env genStmt1 =
+        (if rej a.optflag 0xFFFFFFFF then .error (.exc .ValueError) else .ok (.next env')) ∧
+      (rej a.optflag 0xFFFFFFFF = false → GenSt s a (upd1 a o) c env') := by
+  have hv : env "optflag" = some (.sc (.py a.optflag)) := (h.stat _ (by decide)).trans (genEnv_optflag s a)
+  rw [genStmt1, guarded_exec M env _ _ _ _ _ hv (eval_isNotNone_var M env _ _ hv)]
+  cases hr : rej a.optflag 0xFFFFFFFF
+  · cases hn : a.optflag.isNone
+    · refine ⟨env.set "o.optflag" (.sc (.py a.optflag)), ?_, fun _ => ?_⟩
+      · simp [execBlock, exec_assign_var M env _ _ _ hv]
+      · have hoff : EqOff ["o.optflag"] env (env.set "o.optflag" (.sc (.py a.optflag))) :=
+          (EqOff.refl _ _).set _ _ (by decide)
+        have e : upd1 a o = { o with flags := a.optflag.intVal.toNat } := by simp [upd1, hn]
+        obtain ⟨w1, w2, w3, w4, w5, w6⟩ := h.wf
+        rw [e]
+        exact h.mk' hoff (by decide) _ c ((hoff _ (by decide)).trans h.calls)
+          ⟨_, Env.set_self _ _ _, asInt_given _ _ hr hn⟩ (h.f2.of_eqOff hoff (by decide))
+          (h.f3.of_eqOff hoff (by decide)) (h.f4.of_eqOff hoff (by decide)) (h.f5.of_eqOff hoff (by decide))
+          (h.f6.of_eqOff hoff (by decide)) ⟨toNat_le_given _ 0xFFFFFFFF hr hn, w2, w3, w4, w5, w6⟩
+    · exact ⟨env, by simp, fun _ => by simpa [upd1, hn] using h⟩
+  · exact ⟨env, by simp, by simp⟩
+
+theorem gen_stage2 (M : Meths) {s : Sock} {a : OptsArgs} {o : KOpts} {c : Nat} {env : Env} (h : GenSt s a o c env) :
+    ∃ env', execStmt M env genStmt2 =
+        (if rej a.frameTxtime 0xFFFFFFFF then .error (.exc .ValueError) else .ok (.next env')) ∧
+      (rej a.frameTxtime 0xFFFFFFFF = false → GenSt s a (upd2 a o) c env') := by
+  have hv : env "frame_txtime" = some (.sc (.py a.frameTxtime)) := (h.stat _ (by decide)).trans (genEnv_frame_txtime s a)
+  rw [genStmt2, guarded_exec M env _ _ _ _ _ hv (eval_isNotNone_var M env _ _ hv)]
+  cases hr : rej a.frameTxtime 0xFFFFFFFF
+  · cases hn : a.frameTxtime.isNone
+    · refine ⟨env.set "o.frame_txtime" (.sc (.py a.frameTxtime)), ?_, fun _ => ?_⟩
+      · simp [execBlock, exec_assign_var M env _ _ _ hv]
+      · have hoff : EqOff ["o.frame_txtime"] env (env.set "o.frame_txtime" (.sc (.py a.frameTxtime))) :=
+          (EqOff.refl _ _).set _ _ (by decide)
+        have e : upd2 a o = { o with frameTxtime := a.frameTxtime.intVal.toNat } := by simp [upd2, hn]
+        obtain ⟨w1, w2, w3, w4, w5, w6⟩ := h.wf
+        rw [e]
+        exact h.mk' hoff (by decide) _ c ((hoff _ (by decide)).trans h.calls)
+          (h.f1.of_eqOff hoff (by decide)) ⟨_, Env.set_self _ _ _, asInt_given _ _ hr hn⟩
+          (h.f3.of_eqOff hoff (by decide)) (h.f4.of_eqOff hoff (by decide)) (h.f5.of_eqOff hoff (by decide))
+          (h.f6.of_eqOff hoff (by decide)) ⟨w1, toNat_le_given _ 0xFFFFFFFF hr hn, w3, w4, w5, w6⟩
+    · exact ⟨env, by simp, fun _ => by simpa [upd2, hn] using h⟩
+  · exact ⟨env, by simp, by simp⟩
+
+theorem gen_stage3 (M : Meths) {s : Sock} {a : OptsArgs} {o : KOpts} {c : Nat} {env : Env} (h : GenSt s a o c env) :
+    ∃ env', execStmt M env genStmt3 =
+        (if rej a.extAddress 0xFF then .error (.exc .ValueError) else .ok (.next env')) ∧
+      (rej a.extAddress 0xFF = false → GenSt s a (upd3 a o) c env') := by
+  have hv : env "ext_address" = some (.sc (.py a.extAddress)) := (h.stat _ (by decide)).trans (genEnv_ext_address s a)
+  have hf : env "flags.EXTEND_ADDR" = some (pint ((2 : Nat) : Int)) := (h.stat _ (by decide)).trans (genEnv_EXTEND_ADDR s a)
+  rw [genStmt3, guarded_exec M env _ _ _ _ _ hv (eval_isNotNone_var M env _ _ hv)]
+  cases hr : rej a.extAddress 0xFF
+  · cases hn : a.extAddress.isNone
+    · obtain ⟨x, hx, hxi⟩ := h.f1
+      refine ⟨(env.set "o.ext_address" (.sc (.py a.extAddress))).set "o.optflag" (pint ((o.flags ||| 2 : Nat) : Int)),
+        ?_, fun _ => ?_⟩
+      · simp only [Bool.false_eq_true, if_false]
+        rw [flagBody_exec M env _ _ _ _ x o.flags 2 hv hx hxi hf (by decide) (by decide)]
+      · have hoff : EqOff ["o.ext_address", "o.optflag"] env
+            ((env.set "o.ext_address" (.sc (.py a.extAddress))).set "o.optflag" (pint ((o.flags ||| 2 : Nat) : Int))) :=
+          ((EqOff.refl _ _).set _ _ (by decide)).set _ _ (by decide)
+        have e : upd3 a o = { o with extAddress := a.extAddress.intVal.toNat, flags := o.flags ||| 2 } := by
+          simp [upd3, hn, or_EXTEND_ADDR]
+        obtain ⟨w1, w2, w3, w4, w5, w6⟩ := h.wf
+        rw [e]
+        exact h.mk' hoff (by decide) _ c ((hoff _ (by decide)).trans h.calls)
+          ⟨_, Env.set_self _ _ _, asInt_pint _⟩ (h.f2.of_eqOff hoff (by decide))
+          ⟨_, (Env.set_ne _ _ _ _ (by decide)).trans (Env.set_self _ _ _), asInt_given _ _ hr hn⟩
+          (h.f4.of_eqOff hoff (by decide)) (h.f5.of_eqOff hoff (by decide))
+          (h.f6.of_eqOff hoff (by decide)) ⟨or_le_u32 _ _ w1 (by omega), w2, toNat_le_given _ 0xFF hr hn, w4, w5, w6⟩
+    · exact ⟨env, by simp, fun _ => by simpa [upd3, hn] using h⟩
+  · exact ⟨env, by simp, by simp⟩
+
+theorem gen_stage4 (M : Meths) {s : Sock} {a : OptsArgs} {o : KOpts} {c : Nat} {env : Env} (h : GenSt s a o c env) :
+    ∃ env', execStmt M env genStmt4 =
+        (if rej a.txpad 0xFF then .error (.exc .ValueError) else .ok (.next env')) ∧
+      (rej a.txpad 0xFF = false → GenSt s a (upd4 a o) c env') := by
+  have hv : env "txpad" = some (.sc (.py a.txpad)) := (h.stat _ (by decide)).trans (genEnv_txpad s a)
+  have hf : env "flags.TX_PADDING" = some (pint ((4 : Nat) : Int)) := (h.stat _ (by decide)).trans (genEnv_TX_PADDING s a)
+  rw [genStmt4, guarded_exec M env _ _ _ _ _ hv (eval_isNotNone_var M env _ _ hv)]
+  cases hr : rej a.txpad 0xFF
+  · cases hn : a.txpad.isNone
+    · obtain ⟨x, hx, hxi⟩ := h.f1
+      refine ⟨(env.set "o.txpad" (.sc (.py a.txpad))).set "o.optflag" (pint ((o.flags ||| 4 : Nat) : Int)),
+        ?_, fun _ => ?_⟩
+      · simp only [Bool.false_eq_true, if_false]
+        rw [flagBody_exec M env _ _ _ _ x o.flags 4 hv hx hxi hf (by decide) (by decide)]
+      · have hoff : EqOff ["o.txpad", "o.optflag"] env
+            ((env.set "o.txpad" (.sc (.py a.txpad))).set "o.optflag" (pint ((o.flags ||| 4 : Nat) : Int))) :=
+          ((EqOff.refl _ _).set _ _ (by decide)).set _ _ (by decide)
+        have e : upd4 a o = { o with txpad := a.txpad.intVal.toNat, flags := o.flags ||| 4 } := by
+          simp [upd4, hn, or_TX_PADDING]
+        obtain ⟨w1, w2, w3, w4, w5, w6⟩ := h.wf
+        rw [e]
+        exact h.mk' hoff (by decide) _ c ((hoff _ (by decide)).trans h.calls)
+          ⟨_, Env.set_self _ _ _, asInt_pint _⟩
+          (h.f2.of_eqOff hoff (by decide))
+          (h.f3.of_eqOff hoff (by decide))
+          ⟨_, (Env.set_ne _ _ _ _ (by decide)).trans (Env.set_self _ _ _), asInt_given _ _ hr hn⟩
+          (h.f5.of_eqOff hoff (by decide))
+          (h.f6.of_eqOff hoff (by decide))
+          ⟨or_le_u32 _ _ w1 (by omega), w2, w3, toNat_le_given _ 0xFF hr hn, w5, w6⟩
+    · exact ⟨env, by simp, fun _ => by simpa [upd4, hn] using h⟩
+  · exact ⟨env, by simp, by simp⟩
+
+theorem gen_stage5 (M : Meths) {s : Sock} {a : OptsArgs} {o : KOpts} {c : Nat} {env : Env} (h : GenSt s a o c env) :
+    ∃ env', execStmt M env genStmt5 =
+        (if rej a.rxpad 0xFF then .error (.exc .ValueError) else .ok (.next env')) ∧
+      (rej a.rxpad 0xFF = false → GenSt s a (upd5 a o) c env') := by
+  have hv : env "rxpad" = some (.sc (.py a.rxpad)) := (h.stat _ (by decide)).trans (genEnv_rxpad s a)
+  have hf : env "flags.RX_PADDING" = some (pint ((8 : Nat) : Int)) := (h.stat _ (by decide)).trans (genEnv_RX_PADDING s a)
+  rw [genStmt5, guarded_exec M env _ _ _ _ _ hv (eval_isNotNone_var M env _ _ hv)]
+  cases hr : rej a.rxpad 0xFF
+  · cases hn : a.rxpad.isNone
+    · obtain ⟨x, hx, hxi⟩ := h.f1
+      refine ⟨(env.set "o.rxpad" (.sc (.py a.rxpad))).set "o.optflag" (pint ((o.flags ||| 8 : Nat) : Int)),
+        ?_, fun _ => ?_⟩
+      · simp only [Bool.false_eq_true, if_false]
+        rw [flagBody_exec M env _ _ _ _ x o.flags 8 hv hx hxi hf (by decide) (by decide)]
+      · have hoff : EqOff ["o.rxpad", "o.optflag"] env
+            ((env.set "o.rxpad" (.sc (.py a.rxpad))).set "o.optflag" (pint ((o.flags ||| 8 : Nat) : Int))) :=
+          ((EqOff.refl _ _).set _ _ (by decide)).set _ _ (by decide)
+        have e : upd5 a o = { o with rxpad := a.rxpad.intVal.toNat, flags := o.flags ||| 8 } := by
+          simp [upd5, hn, or_RX_PADDING]
+        obtain ⟨w1, w2, w3, w4, w5, w6⟩ := h.wf
+        rw [e]
+        exact h.mk' hoff (by decide) _ c ((hoff _ (by decide)).trans h.calls)
+          ⟨_, Env.set_self _ _ _, asInt_pint _⟩
+          (h.f2.of_eqOff hoff (by decide))
+          (h.f3.of_eqOff hoff (by decide))
+          (h.f4.of_eqOff hoff (by decide))
+          ⟨_, (Env.set_ne _ _ _ _ (by decide)).trans (Env.set_self _ _ _), asInt_given _ _ hr hn⟩
+          (h.f6.of_eqOff hoff (by decide))
+          ⟨or_le_u32 _ _ w1 (by omega), w2, w3, w4, toNat_le_given _ 0xFF hr hn, w6⟩
+    · exact ⟨env, by simp, fun _ => by simpa [upd5, hn] using h⟩
+  · exact ⟨env, by simp, by simp⟩
+
+theorem gen_stage6 (M : Meths) {s : Sock} {a : OptsArgs} {o : KOpts} {c : Nat} {env : Env} (h : GenSt s a o c env) :
+    ∃ env', execStmt M env genStmt6 =
+        (if rej a.rxExtAddress 0xFF then .error (.exc .ValueError) else .ok (.next env')) ∧
+      (rej a.rxExtAddress 0xFF = false → GenSt s a (upd6 a o) c env') := by
+  have hv : env "rx_ext_address" = some (.sc (.py a.rxExtAddress)) := (h.stat _ (by decide)).trans (genEnv_rx_ext_address s a)
+  have hf : env "flags.RX_EXT_ADDR" = some (pint ((512 : Nat) : Int)) := (h.stat _ (by decide)).trans (genEnv_RX_EXT_ADDR s a)
+  rw [genStmt6, guarded_exec M env _ _ _ _ _ hv (eval_isNotNone_var M env _ _ hv)]
+  cases hr : rej a.rxExtAddress 0xFF
+  · cases hn : a.rxExtAddress.isNone
+    · obtain ⟨x, hx, hxi⟩ := h.f1
+      refine ⟨(env.set "o.rx_ext_address" (.sc (.py a.rxExtAddress))).set "o.optflag" (pint ((o.flags ||| 512 : Nat) : Int)),
+        ?_, fun _ => ?_⟩
+      · simp only [Bool.false_eq_true, if_false]
+        rw [flagBody_exec M env _ _ _ _ x o.flags 512 hv hx hxi hf (by decide) (by decide)]
+      · have hoff : EqOff ["o.rx_ext_address", "o.optflag"] env
+            ((env.set "o.rx_ext_address" (.sc (.py a.rxExtAddress))).set "o.optflag" (pint ((o.flags ||| 512 : Nat) : Int))) :=
+          ((EqOff.refl _ _).set _ _ (by decide)).set _ _ (by decide)
+        have e : upd6 a o = { o with rxExtAddress := a.rxExtAddress.intVal.toNat, flags := o.flags ||| 512 } := by
+          simp [upd6, hn, or_RX_EXT_ADDR]
+        obtain ⟨w1, w2, w3, w4, w5, w6⟩ := h.wf
+        rw [e]
+        exact h.mk' hoff (by decide) _ c ((hoff _ (by decide)).trans h.calls)
+          ⟨_, Env.set_self _ _ _, asInt_pint _⟩
+          (h.f2.of_eqOff hoff (by decide))
+          (h.f3.of_eqOff hoff (by decide))
+          (h.f4.of_eqOff hoff (by decide))
+          (h.f5.of_eqOff hoff (by decide))
+          ⟨_, (Env.set_ne _ _ _ _ (by decide)).trans (Env.set_self _ _ _), asInt_given _ _ hr hn⟩
+          ⟨or_le_u32 _ _ w1 (by omega), w2, w3, w4, w5, toNat_le_given _ 0xFF hr hn⟩
+    · exact ⟨env, by simp, fun _ => by simpa [upd6, hn] using h⟩
+  · exact ⟨env, by simp, by simp⟩
+
+
+/-- the argument checks of the six struct fields, in source order -/
+def rejFields (a : OptsArgs) : Bool :=
+  rej a.optflag 0xFFFFFFFF || rej a.frameTxtime 0xFFFFFFFF || rej a.extAddress 0xFF || rej a.txpad 0xFF || rej a.rxpad 0xFF ||
+    rej a.rxExtAddress 0xFF
+
+def updFields (a : OptsArgs) (o : KOpts) : KOpts := upd6 a (upd5 a (upd4 a (upd3 a (upd2 a (upd1 a o)))))
+
+/-- the model, as the same sequence of stages -/
+theorem writeOpts_eq0 (s : Sock) (a : OptsArgs) : writeOpts s a =
+    if rej a.optflag 0xFFFFFFFF then .error .ValueError else
+    if rej a.frameTxtime 0xFFFFFFFF then .error .ValueError else
+    if rej a.extAddress 0xFF then .error .ValueError else
+    if rej a.txpad 0xFF then .error .ValueError else
+    if rej a.rxpad 0xFF then .error .ValueError else
+    if rej a.rxExtAddress 0xFF then .error .ValueError else
+    if rej a.txStmin 0xFFFFFFFF then .error .ValueError else
+    .ok ((sock7 s a).sso optOPTS (layoutOpts (upd7 a (updFields a (parseOpts (layoutOpts s.k.opts))))),
+      upd7 a (updFields a (parseOpts (layoutOpts s.k.opts)))) := by
+  cases h : a.txStmin.isNone <;>
+    simp only [writeOpts, rej, updFields, upd1, upd2, upd3, upd4, upd5, upd6, upd7, sock7, h] <;> rfl
+
+theorem writeOpts_eq (s : Sock) (a : OptsArgs) : writeOpts s a =
+    if rejFields a || rej a.txStmin 0xFFFFFFFF then .error .ValueError else
+    .ok ((sock7 s a).sso optOPTS (layoutOpts (upd7 a (updFields a (parseOpts (layoutOpts s.k.opts))))),
+      upd7 a (updFields a (parseOpts (layoutOpts s.k.opts)))) := by
+  rw [writeOpts_eq0, rejFields]
+  generalize Except.ok ((sock7 s a).sso optOPTS (layoutOpts (upd7 a (updFields a (parseOpts (layoutOpts s.k.opts))))),
+      upd7 a (updFields a (parseOpts (layoutOpts s.k.opts)))) = r
+  cases rej a.optflag 0xFFFFFFFF <;> cases rej a.frameTxtime 0xFFFFFFFF <;> cases rej a.extAddress 0xFF <;>
+  cases rej a.txpad 0xFF <;> cases rej a.rxpad 0xFF <;> cases rej a.rxExtAddress 0xFF <;>
+  cases rej a.txStmin 0xFFFFFFFF <;> rfl
+
+theorem gen_fields (M : Meths) (rest : PBlock) {s : Sock} {a : OptsArgs} {o : KOpts} {c : Nat} {env : Env}
+    (h : GenSt s a o c env) :
+    ∃ env', execBlock M env (.cons genStmt1 (.cons genStmt2 (.cons genStmt3 (.cons genStmt4 (.cons genStmt5 (.cons genStmt6 rest)))))) =
+        (if rejFields a then .error (.exc .ValueError) else execBlock M env' rest) ∧
+      (rejFields a = false → GenSt s a (updFields a o) c env') := by
+  obtain ⟨e1, x1, g1⟩ := gen_stage1 M h
+  rw [execBlock_cons_stage _ _ _ _ _ _ _ x1]
+  cases r1 : rej a.optflag 0xFFFFFFFF
+  case true => exact ⟨env, by simp [rejFields, r1], by simp [rejFields, r1]⟩
+  obtain ⟨e2, x2, g2⟩ := gen_stage2 M (g1 r1)
+  simp only [Bool.false_eq_true, if_false]
+  rw [execBlock_cons_stage _ _ _ _ _ _ _ x2]
+  cases r2 : rej a.frameTxtime 0xFFFFFFFF
+  case true => exact ⟨env, by simp [rejFields, r2], by simp [rejFields, r2]⟩
+  obtain ⟨e3, x3, g3⟩ := gen_stage3 M (g2 r2)
+  simp only [Bool.false_eq_true, if_false]
+  rw [execBlock_cons_stage _ _ _ _ _ _ _ x3]
+  cases r3 : rej a.extAddress 0xFF
+  case true => exact ⟨env, by simp [rejFields, r3], by simp [rejFields, r3]⟩
+  obtain ⟨e4, x4, g4⟩ := gen_stage4 M (g3 r3)
+  simp only [Bool.false_eq_true, if_false]
+  rw [execBlock_cons_stage _ _ _ _ _ _ _ x4]
+  cases r4 : rej a.txpad 0xFF
+  case true => exact ⟨env, by simp [rejFields, r4], by simp [rejFields, r4]⟩
+  obtain ⟨e5, x5, g5⟩ := gen_stage5 M (g4 r4)
+  simp only [Bool.false_eq_true, if_false]
+  rw [execBlock_cons_stage _ _ _ _ _ _ _ x5]
+  cases r5 : rej a.rxpad 0xFF
+  case true => exact ⟨env, by simp [rejFields, r5], by simp [rejFields, r5]⟩
+  obtain ⟨e6, x6, g6⟩ := gen_stage6 M (g5 r5)
+  simp only [Bool.false_eq_true, if_false]
+  rw [execBlock_cons_stage _ _ _ _ _ _ _ x6]
+  cases r6 : rej a.rxExtAddress 0xFF
+  case true => exact ⟨env, by simp [rejFields, r6], by simp [rejFields, r6]⟩
+  exact ⟨e6, by simp [rejFields, r1, r2, r3, r4, r5, r6], fun _ => g6 r6⟩
+
+
+theorem byteAt_le (d : Bytes) (i : Nat) : byteAt d i ≤ 255 := by
+  have := (d.getD i 0).toNat_lt
+  unfold byteAt; omega
+
+theorem rd32_le (d : Bytes) (i : Nat) : rd32 d i ≤ 0xFFFFFFFF := by
+  have h0 := byteAt_le d i; have h1 := byteAt_le d (i + 1); have h2 := byteAt_le d (i + 2); have h3 := byteAt_le d (i + 3)
+  unfold rd32
+  generalize byteAt d i = x0 at *; generalize byteAt d (i + 1) = x1 at *
+  generalize byteAt d (i + 2) = x2 at *; generalize byteAt d (i + 3) = x3 at *
+  omega
+
+/-- what `read` delivers always fits the struct -/
+theorem parseOpts_wf (d : Bytes) : optsWf (parseOpts d) :=
+  ⟨rd32_le d 0, rd32_le d 4, byteAt_le d 8, byteAt_le d 9, byteAt_le d 10, byteAt_le d 11⟩
+
+/-- the state after `assert_is_socket(s); o = cls.read(s)` -/
+theorem gen_init (s : Sock) (a : OptsArgs) :
+    GenSt s a (parseOpts (layoutOpts s.k.opts)) 0 ((genEnv s a).set "o" (.meth "o")) where
+  stat := fun k hk => Env.set_ne _ _ _ _ (by rintro rfl; revert hk; decide)
+  calls := (Env.set_ne _ _ _ _ (by decide)).trans (genEnv_calls s a)
+  obj := Env.set_self _ _ _
+  f1 := ⟨_, (Env.set_ne _ _ _ _ (by decide)).trans (genEnv_o_optflag s a), asInt_pint _⟩
+  f2 := ⟨_, (Env.set_ne _ _ _ _ (by decide)).trans (genEnv_o_frame_txtime s a), asInt_pint _⟩
+  f3 := ⟨_, (Env.set_ne _ _ _ _ (by decide)).trans (genEnv_o_ext_address s a), asInt_pint _⟩
+  f4 := ⟨_, (Env.set_ne _ _ _ _ (by decide)).trans (genEnv_o_txpad s a), asInt_pint _⟩
+  f5 := ⟨_, (Env.set_ne _ _ _ _ (by decide)).trans (genEnv_o_rxpad s a), asInt_pint _⟩
+  f6 := ⟨_, (Env.set_ne _ _ _ _ (by decide)).trans (genEnv_o_rx_ext_address s a), asInt_pint _⟩
+  wf := parseOpts_wf _
+
+/-- the first three statements -/
+theorem gen_prologue (sso) (s : Sock) (a : OptsArgs) (rest : PBlock) :
+    execBlock (sockMeths sso) (genEnv s a)
+      (.cons stmtAssertSocket (.cons stmtRead (.cons (.assert_ (.isNotNone (.var "o.optflag"))) rest))) =
+    execBlock (sockMeths sso) ((genEnv s a).set "o" (.meth "o")) rest := by
+  rw [execBlock_cons_ok _ _ _ _ _ (stmtAssertSocket_exec sso _ (genEnv_s s a)),
+    execBlock_cons_ok _ _ _ _ _ (stmtRead_exec sso _ (genEnv_s s a))]
+  have h : ((genEnv s a).set "o" (.meth "o")) "o.optflag" = some (pint ((parseOpts (layoutOpts s.k.opts)).flags : Nat)) :=
+    (Env.set_ne _ _ _ _ (by decide)).trans (genEnv_o_optflag s a)
+  apply execBlock_cons_ok
+  simp [execStmt, eval, h, pnone, pint]
+
+/-- `if tx_stmin is not None: ...` -/
+theorem gen_stage7 (sso) {s : Sock} {a : OptsArgs} {o : KOpts} {c : Nat} {env : Env} (h : GenSt s a o c env) :
+    execStmt (sockMeths sso) env genStmt7 =
+      (if rej a.txStmin 0xFFFFFFFF then .error (.exc .ValueError) else
+       if a.txStmin.isNone then .ok (.next env) else
+         (sso [pint (solCanIsotp : Nat), pint (optTX_STMIN : Nat), .bytes (le32 a.txStmin.intVal.toNat)]
+            (env.set "o.optflag" (pint ((o.flags ||| 128 : Nat) : Int))) >>= fun e => .ok (.next e))) ∧
+    (rej a.txStmin 0xFFFFFFFF = false → a.txStmin.isNone = false →
+      GenSt s a (upd7 a o) c (env.set "o.optflag" (pint ((o.flags ||| 128 : Nat) : Int)))) := by
+  have hv : env "tx_stmin" = some (.sc (.py a.txStmin)) := (h.stat _ (by decide)).trans (genEnv_tx_stmin s a)
+  have hf : env "flags.FORCE_TXSTMIN" = some (pint ((128 : Nat) : Int)) := (h.stat _ (by decide)).trans (genEnv_FORCE_TXSTMIN s a)
+  have hl : env "SOL_CAN_ISOTP" = some (pint (solCanIsotp : Nat)) := (h.stat _ (by decide)).trans (genEnv_SOL s a)
+  have ho : env "CAN_ISOTP_TX_STMIN" = some (pint (optTX_STMIN : Nat)) := (h.stat _ (by decide)).trans (genEnv_TX_STMIN s a)
+  obtain ⟨x, hx, hxi⟩ := h.f1
+  rw [genStmt7, guarded_exec _ env _ _ _ _ _ hv (eval_isNotNone_var _ env _ _ hv)]
+  have hoff : EqOff ["o.optflag"] env (env.set "o.optflag" (pint ((o.flags ||| 128 : Nat) : Int))) :=
+    (EqOff.refl _ _).set _ _ (by decide)
+  constructor
+  · cases hr : rej a.txStmin 0xFFFFFFFF
+    · cases hn : a.txStmin.isNone
+      · have hv' := (hoff "tx_stmin" (by decide)).trans hv
+        have hl' := (hoff "SOL_CAN_ISOTP" (by decide)).trans hl
+        have ho' := (hoff "CAN_ISOTP_TX_STMIN" (by decide)).trans ho
+        have hp := structPack_L (.sc (.py a.txStmin)) a.txStmin.intVal.toNat (asInt_given _ _ hr hn)
+          (toNat_le_given _ 0xFFFFFFFF hr hn)
+        have s2 : execStmt (sockMeths sso) (env.set "o.optflag" (pint ((o.flags ||| 128 : Nat) : Int)))
+            (.expr (.call "s.setsockopt" (.cons (.var "SOL_CAN_ISOTP") (.cons (.var "CAN_ISOTP_TX_STMIN")
+              (.cons (.call "struct.pack" (.cons (.strLit "=L") (.cons (.var "tx_stmin") .nil))) .nil))))) =
+            (sso [pint (solCanIsotp : Nat), pint (optTX_STMIN : Nat), .bytes (le32 a.txStmin.intVal.toNat)]
+              (env.set "o.optflag" (pint ((o.flags ||| 128 : Nat) : Int))) >>= fun e => .ok (.next e)) := by
+          simp [execStmt, evalArgs, eval, hv', hl', ho', eb_setsockopt, eb_struct_pack, sockMeths_pack, sockMeths_sso, hp]
+        simp only [Bool.false_eq_true, if_false]
+        rw [execBlock_cons_ok _ _ _ _ _ (exec_orflag _ env _ x o.flags 128 hx hxi hf), execBlock, s2]
+        cases sso [pint (solCanIsotp : Nat), pint (optTX_STMIN : Nat), .bytes (le32 a.txStmin.intVal.toNat)]
+          (env.set "o.optflag" (pint ((o.flags ||| 128 : Nat) : Int))) <;> rfl
+      · simp
+    · simp
+  · intro hr hn
+    have e : upd7 a o = { o with flags := o.flags ||| 128 } := by simp [upd7, hn, or_FORCE_TXSTMIN]
+    obtain ⟨w1, w2, w3, w4, w5, w6⟩ := h.wf
+    rw [e]
+    exact h.mk' hoff (by decide) _ c ((hoff _ (by decide)).trans h.calls)
+      ⟨_, Env.set_self _ _ _, asInt_pint _⟩ (h.f2.of_eqOff hoff (by decide)) (h.f3.of_eqOff hoff (by decide))
+      (h.f4.of_eqOff hoff (by decide)) (h.f5.of_eqOff hoff (by decide)) (h.f6.of_eqOff hoff (by decide))
+      ⟨or_le_u32 _ _ w1 (by omega), w2, w3, w4, w5, w6⟩
+
+/-- `opt = struct.pack("=LLBBBB", o.optflag, ...); s.setsockopt(SOL_CAN_ISOTP, CAN_ISOTP_OPTS, opt); return o` -/
+theorem gen_tail_exec (sso) {s : Sock} {a : OptsArgs} {o : KOpts} {c : Nat} {env : Env} (h : GenSt s a o c env) :
+    execBlock (sockMeths sso) env genTail =
+      (sso [pint (solCanIsotp : Nat), pint (optOPTS : Nat), .bytes (layoutOpts o)] (env.set "opt" (.bytes (layoutOpts o))) >>=
+        fun e => execBlock (sockMeths sso) e (.cons (.ret (.var "o")) .nil)) := by
+  obtain ⟨x1, l1, i1⟩ := h.f1
+  obtain ⟨x2, l2, i2⟩ := h.f2
+  obtain ⟨x3, l3, i3⟩ := h.f3
+  obtain ⟨x4, l4, i4⟩ := h.f4
+  obtain ⟨x5, l5, i5⟩ := h.f5
+  obtain ⟨x6, l6, i6⟩ := h.f6
+  obtain ⟨w1, w2, w3, w4, w5, w6⟩ := h.wf
+  have hp := structPack_LLBBBB x1 x2 x3 x4 x5 x6 o i1 i2 i3 i4 i5 i6 w1 w2 w3 w4 w5 w6
+  have hl : env "SOL_CAN_ISOTP" = some (pint (solCanIsotp : Nat)) := (h.stat _ (by decide)).trans (genEnv_SOL s a)
+  have ho : env "CAN_ISOTP_OPTS" = some (pint (optOPTS : Nat)) := (h.stat _ (by decide)).trans (genEnv_OPTS s a)
+  have s1 : execStmt (sockMeths sso) env (.assign "opt" (.call "struct.pack" (.cons (.strLit "=LLBBBB") (.cons (.var "o.optflag")
+      (.cons (.var "o.frame_txtime") (.cons (.var "o.ext_address") (.cons (.var "o.txpad") (.cons (.var "o.rxpad")
+      (.cons (.var "o.rx_ext_address") .nil))))))))) = .ok (.next (env.set "opt" (.bytes (layoutOpts o)))) := by
+    simp [execStmt, evalArgs, eval, l1, l2, l3, l4, l5, l6, eb_struct_pack, sockMeths_pack, hp]
+  rw [genTail, execBlock_cons_ok _ _ _ _ _ s1]
+  have s2 := stmtSso_exec sso (env.set "opt" (.bytes (layoutOpts o))) "CAN_ISOTP_OPTS" _ _ _
+    ((Env.set_ne _ _ _ _ (by decide)).trans hl) ((Env.set_ne _ _ _ _ (by decide)).trans ho) (Env.set_self _ _ _)
+  rw [execBlock, s2]
+  cases sso [pint (solCanIsotp : Nat), pint (optOPTS : Nat), .bytes (layoutOpts o)] (env.set "opt" (.bytes (layoutOpts o))) <;> rfl
+
+
+/-- recording the final `setsockopt` when no call has been recorded yet -/
+theorem gen_tail_rec0 {s : Sock} {a : OptsArgs} {o : KOpts} {env : Env} (h : GenSt s a o 0 env) :
+    ∃ env', execBlock recMeths env genTail = .ok (.returned (.meth "o") env') ∧ EqOff ("opt" :: keys0) env env' ∧
+      env' "#calls" = some (pint 1) ∧ env' "call.0.level" = some (pint (solCanIsotp : Nat)) ∧
+      env' "call.0.opt" = some (pint (optOPTS : Nat)) ∧ env' "call.0.data" = some (.bytes (layoutOpts o)) := by
+  have hc : (env.set "opt" (.bytes (layoutOpts o))) "#calls" = some (pint ((0 : Nat) : Int)) :=
+    (Env.set_ne _ _ _ _ (by decide)).trans h.calls
+  obtain ⟨c0, c1, c2, c3, hoff⟩ := logCall_0 (env.set "opt" (.bytes (layoutOpts o))) (solCanIsotp : Nat) (optOPTS : Nat) (layoutOpts o)
+  have hoff' : EqOff ("opt" :: keys0) env (logCall (env.set "opt" (.bytes (layoutOpts o))) 0 (solCanIsotp : Nat) (optOPTS : Nat) (layoutOpts o)) :=
+    (((EqOff.refl _ env).set "opt" (.bytes (layoutOpts o)) (by decide)).trans (hoff.mono (by decide)))
+  refine ⟨_, ?_, hoff', c0, c1, c2, c3⟩
+  have ho := (hoff' "o" (by decide)).trans h.obj
+  rw [recMeths, gen_tail_exec recordSso h, recordSso_at _ 0 _ _ _ hc]
+  simp [execBlock, execStmt, eval, ho]
+
+/-- recording the final `setsockopt` after one recorded call -/
+theorem gen_tail_rec1 {s : Sock} {a : OptsArgs} {o : KOpts} {env : Env} (h : GenSt s a o 1 env) :
+    ∃ env', execBlock recMeths env genTail = .ok (.returned (.meth "o") env') ∧ EqOff ("opt" :: keys1) env env' ∧
+      env' "#calls" = some (pint 2) ∧ env' "call.1.level" = some (pint (solCanIsotp : Nat)) ∧
+      env' "call.1.opt" = some (pint (optOPTS : Nat)) ∧ env' "call.1.data" = some (.bytes (layoutOpts o)) := by
+  have hc : (env.set "opt" (.bytes (layoutOpts o))) "#calls" = some (pint ((1 : Nat) : Int)) :=
+    (Env.set_ne _ _ _ _ (by decide)).trans h.calls
+  obtain ⟨c0, c1, c2, c3, hoff⟩ := logCall_1 (env.set "opt" (.bytes (layoutOpts o))) (solCanIsotp : Nat) (optOPTS : Nat) (layoutOpts o)
+  have hoff' : EqOff ("opt" :: keys1) env (logCall (env.set "opt" (.bytes (layoutOpts o))) 1 (solCanIsotp : Nat) (optOPTS : Nat) (layoutOpts o)) :=
+    (((EqOff.refl _ env).set "opt" (.bytes (layoutOpts o)) (by decide)).trans (hoff.mono (by decide)))
+  refine ⟨_, ?_, hoff', c0, c1, c2, c3⟩
+  have ho := (hoff' "o" (by decide)).trans h.obj
+  rw [recMeths, gen_tail_exec recordSso h, recordSso_at _ 1 _ _ _ hc]
+  simp [execBlock, execStmt, eval, ho]
+
+/-- the object `o` of the run holds the integers `o'` -/
+def GenObj (env : Env) (o' : KOpts) : Prop :=
+  IntAt env "o.optflag" o'.flags ∧ IntAt env "o.frame_txtime" o'.frameTxtime ∧ IntAt env "o.ext_address" o'.extAddress ∧
+  IntAt env "o.txpad" o'.txpad ∧ IntAt env "o.rxpad" o'.rxpad ∧ IntAt env "o.rx_ext_address" o'.rxExtAddress
+
+theorem GenSt.obj_of_eqOff {s : Sock} {a : OptsArgs} {o : KOpts} {c : Nat} {env env' : Env} (h : GenSt s a o c env)
+    {ks : List String} (hoff : EqOff ks env env')
+    (hd : ∀ k ∈ ["o.optflag", "o.frame_txtime", "o.ext_address", "o.txpad", "o.rxpad", "o.rx_ext_address"], k ∉ ks) :
+    GenObj env' o :=
+  ⟨h.f1.of_eqOff hoff (hd _ (by decide)), h.f2.of_eqOff hoff (hd _ (by decide)), h.f3.of_eqOff hoff (hd _ (by decide)),
+   h.f4.of_eqOff hoff (hd _ (by decide)), h.f5.of_eqOff hoff (hd _ (by decide)), h.f6.of_eqOff hoff (hd _ (by decide))⟩
+
+/-- the whole body up to (not including) the `tx_stmin` statement, for any semantics of `s.setsockopt` (none is executed) -/
+theorem gen_run (sso) (s : Sock) (a : OptsArgs) :
+    ∃ env6, execBlock (sockMeths sso) (genEnv s a) Src.GeneralOpts_write =
+        (if rejFields a then .error (.exc .ValueError) else execBlock (sockMeths sso) env6 (.cons genStmt7 genTail)) ∧
+      (rejFields a = false → GenSt s a (updFields a (parseOpts (layoutOpts s.k.opts))) 0 env6) := by
+  rw [gen_body_eq, gen_prologue]
+  exact gen_fields _ _ (gen_init s a)
+
+/-- **`GeneralOpts.write` rejects what the model rejects, with `ValueError`, whatever `s.setsockopt` would do**
+    (so: before any `s.setsockopt` statement is executed; see `GeneralOpts_write_reject_fail`). -/
+theorem GeneralOpts_write_reject_any (sso) (s : Sock) (a : OptsArgs) (e : PyExc) (h : writeOpts s a = .error e) :
+    e = .ValueError ∧ runFn (sockMeths sso) (genEnv s a) Src.GeneralOpts_write = .error (.exc .ValueError) := by
+  rw [writeOpts_eq] at h
+  obtain ⟨env6, hx, hg⟩ := gen_run sso s a
+  cases hr : rejFields a || rej a.txStmin 0xFFFFFFFF
+  · simp [hr] at h
+  · simp only [hr, if_true] at h
+    refine ⟨by injection h with h; exact h.symm, ?_⟩
+    cases hf : rejFields a
+    · have h7 : rej a.txStmin 0xFFFFFFFF = true := by simpa [hf] using hr
+      have := (gen_stage7 sso (hg hf)).1
+      simp only [h7, if_true] at this
+      simp [runFn, hx, hf, execBlock, this]
+    · simp [runFn, hx, hf]
+
+
+/-- the calls the model adds for an accepted `write`, newest first -/
+def genNewCalls (a : OptsArgs) (o' : KOpts) : List Call :=
+  if a.txStmin.isNone then [.setopt solCanIsotp optOPTS (layoutOpts o')]
+  else [.setopt solCanIsotp optOPTS (layoutOpts o'), .setopt solCanIsotp optTX_STMIN (le32 a.txStmin.intVal.toNat)]
+
+/-- **`GeneralOpts.write` accepts what the model accepts**: it returns the object `o`, whose attributes then hold the fields of
+    the model's result `o'`, and the recorded `setsockopt` calls are exactly the calls the model adds, in the same order with the
+    same bytes: one `CAN_ISOTP_OPTS` call with `layoutOpts o'`, preceded by the `CAN_ISOTP_TX_STMIN` call with `le32 tx_stmin`
+    iff `tx_stmin` is given.  (`struct.pack` never fails.) -/
+theorem GeneralOpts_write_accept (s : Sock) (a : OptsArgs) (s' : Sock) (o' : KOpts) (h : writeOpts s a = .ok (s', o')) :
+    ∃ env', runFn recMeths (genEnv s a) Src.GeneralOpts_write = .ok (.meth "o", env') ∧ GenObj env' o' ∧
+      recorded env' = some (genNewCalls a o') ∧ s'.calls = genNewCalls a o' ++ s.calls := by
+  rw [writeOpts_eq] at h
+  obtain ⟨env6, hx, hg⟩ := gen_run recordSso s a
+  cases hr : rejFields a || rej a.txStmin 0xFFFFFFFF
+  case true => simp [hr] at h
+  simp only [hr, Bool.false_eq_true, if_false, Except.ok.injEq, Prod.mk.injEq] at h
+  obtain ⟨hs', ho'⟩ := h
+  have hf : rejFields a = false := by cases hh : rejFields a <;> simp_all
+  have h7 : rej a.txStmin 0xFFFFFFFF = false := by cases hh : rej a.txStmin 0xFFFFFFFF <;> simp_all
+  have g6 := hg hf
+  obtain ⟨x7, g7⟩ := gen_stage7 recordSso g6
+  simp only [h7, Bool.false_eq_true, if_false] at x7
+  have g7 := g7 h7
+  cases hn : a.txStmin.isNone
+  · -- `tx_stmin` given: two calls
+    simp only [hn, Bool.false_eq_true, if_false] at x7
+    have g7 := g7 hn
+    obtain ⟨c0, c1, c2, c3, hoff0⟩ := logCall_0 (env6.set "o.optflag" (pint ((((updFields a (parseOpts (layoutOpts s.k.opts))).flags ||| 128 : Nat)) : Int)))
+      (solCanIsotp : Nat) (optTX_STMIN : Nat) (le32 a.txStmin.intVal.toNat)
+    rw [recordSso_at _ 0 _ _ _ g7.calls] at x7
+    have g8 : GenSt s a (upd7 a (updFields a (parseOpts (layoutOpts s.k.opts)))) 1 _ :=
+      g7.mk' hoff0 (by decide) _ 1 c0 (g7.f1.of_eqOff hoff0 (by decide)) (g7.f2.of_eqOff hoff0 (by decide))
+        (g7.f3.of_eqOff hoff0 (by decide)) (g7.f4.of_eqOff hoff0 (by decide)) (g7.f5.of_eqOff hoff0 (by decide))
+        (g7.f6.of_eqOff hoff0 (by decide)) g7.wf
+    obtain ⟨env', xt, hoff1, d0, d1, d2, d3⟩ := gen_tail_rec1 g8
+    refine ⟨env', ?_, ?_, ?_, ?_⟩
+    · rw [recMeths] at xt ⊢
+      rw [runFn, hx, hf]
+      simp only [Bool.false_eq_true, if_false]
+      rw [execBlock, x7]
+      simp only [ok_bind]
+      rw [xt]
+    · rw [← ho']; exact g8.obj_of_eqOff hoff1 (by decide)
+    · rw [← ho', genNewCalls, hn]
+      exact recorded_two env' _ _ _ _ _ _ d0 ((hoff1 _ (by decide)).trans c1) ((hoff1 _ (by decide)).trans c2)
+        ((hoff1 _ (by decide)).trans c3) d1 d2 d3
+    · rw [← hs', ← ho', genNewCalls, hn]
+      simp [sock7, hn, Sock.sso]
+  · -- `tx_stmin` not given: one call
+    simp only [hn, if_true] at x7
+    have e7 : upd7 a (updFields a (parseOpts (layoutOpts s.k.opts))) = updFields a (parseOpts (layoutOpts s.k.opts)) := by
+      simp [upd7, hn]
+    rw [e7] at ho'
+    obtain ⟨env', xt, hoff1, d0, d1, d2, d3⟩ := gen_tail_rec0 g6
+    refine ⟨env', ?_, ?_, ?_, ?_⟩
+    · rw [recMeths] at xt ⊢
+      rw [runFn, hx, hf]
+      simp only [Bool.false_eq_true, if_false]
+      rw [execBlock, x7]
+      simp only [ok_bind]
+      rw [xt]
+    · rw [← ho']; exact g6.obj_of_eqOff hoff1 (by decide)
+    · rw [← ho', genNewCalls, hn]
+      exact recorded_one env' _ _ _ d0 d1 d2 d3
+    · rw [← hs', ← ho', genNewCalls, hn, e7]
+      simp [sock7, hn, Sock.sso]
+
+/-- non-vacuity of the `failMeths` argument: an ACCEPTED call does reach `s.setsockopt` -/
+theorem GeneralOpts_write_accept_fail (s : Sock) (a : OptsArgs) (r : Sock × KOpts) (h : writeOpts s a = .ok r) :
+    runFn failMeths (genEnv s a) Src.GeneralOpts_write = .error (.unsupported "setsockopt") := by
+  rw [writeOpts_eq] at h
+  obtain ⟨env6, hx, hg⟩ := gen_run failSso s a
+  cases hr : rejFields a || rej a.txStmin 0xFFFFFFFF
+  case true => simp [hr] at h
+  have hf : rejFields a = false := by cases hh : rejFields a <;> simp_all
+  have h7 : rej a.txStmin 0xFFFFFFFF = false := by cases hh : rej a.txStmin 0xFFFFFFFF <;> simp_all
+  have g6 := hg hf
+  obtain ⟨x7, g7⟩ := gen_stage7 failSso g6
+  simp only [h7, Bool.false_eq_true, if_false] at x7
+  rw [failMeths, runFn, hx, hf]
+  simp only [Bool.false_eq_true, if_false]
+  rw [execBlock, x7]
+  cases hn : a.txStmin.isNone
+  · simp [failSso]
+  · simp [gen_tail_exec failSso g6, failSso]
+
+
+/-! ## 4. `FlowControlOpts.write` -/
+
+/-- the world `FlowControlOpts.write(s, bs, stmin, wftmax)` runs in (see the head of the file) -/
+def fcEnv (s : Sock) (x y z : PyVal) : Env := fun k =>
+  match k with
+  | "s" => some (.meth "s")
+  | "bs" => some (.sc (.py x))
+  | "stmin" => some (.sc (.py y))
+  | "wftmax" => some (.sc (.py z))
+  | "o.bs" => some (pint ((parseFc (layoutFc s.k.fc)).bs : Nat))
+  | "o.stmin" => some (pint ((parseFc (layoutFc s.k.fc)).stmin : Nat))
+  | "o.wftmax" => some (pint ((parseFc (layoutFc s.k.fc)).wftmax : Nat))
+  | "SOL_CAN_ISOTP" => some (pint (solCanIsotp : Nat))
+  | "#calls" => some (pint ((0 : Nat) : Int))
+  | _ => constEnv k
+
+section fcLookups
+variable (s : Sock) (x y z : PyVal)
+theorem fcEnv_s : fcEnv s x y z "s" = some (.meth "s") := rfl
+theorem fcEnv_a1 : fcEnv s x y z "bs" = some (.sc (.py x)) := rfl
+theorem fcEnv_a2 : fcEnv s x y z "stmin" = some (.sc (.py y)) := rfl
+theorem fcEnv_a3 : fcEnv s x y z "wftmax" = some (.sc (.py z)) := rfl
+theorem fcEnv_o1 : fcEnv s x y z "o.bs" = some (pint ((parseFc (layoutFc s.k.fc)).bs : Nat)) := rfl
+theorem fcEnv_o2 : fcEnv s x y z "o.stmin" = some (pint ((parseFc (layoutFc s.k.fc)).stmin : Nat)) := rfl
+theorem fcEnv_o3 : fcEnv s x y z "o.wftmax" = some (pint ((parseFc (layoutFc s.k.fc)).wftmax : Nat)) := rfl
+theorem fcEnv_SOL : fcEnv s x y z "SOL_CAN_ISOTP" = some (pint (solCanIsotp : Nat)) := rfl
+theorem fcEnv_calls : fcEnv s x y z "#calls" = some (pint ((0 : Nat) : Int)) := rfl
+/- the option number, as dumped from the source (`Src.consts`) -/
+theorem fcEnv_OPT : fcEnv s x y z "CAN_ISOTP_RECV_FC" = some (pint (optRECV_FC : Nat)) := rfl
+end fcLookups
+
+/-- names never assigned by `FlowControlOpts.write` -/
+def fcKeys : List String := ["s", "bs", "stmin", "wftmax", "SOL_CAN_ISOTP", "CAN_ISOTP_RECV_FC"]
+
+/-- `env` is a state of the run of `FlowControlOpts.write(s, x, y, z)` in which the object `o` holds the integers `o`
+    and no call of `setsockopt` has been recorded -/
+structure FcSt (s : Sock) (x y z : PyVal) (o : KFc) (env : Env) : Prop where
+  stat : ∀ k ∈ fcKeys, env k = fcEnv s x y z k
+  calls : env "#calls" = some (pint ((0 : Nat) : Int))
+  obj : env "o" = some (.meth "o")
+  f1 : IntAt env "o.bs" o.bs
+  f2 : IntAt env "o.stmin" o.stmin
+  f3 : IntAt env "o.wftmax" o.wftmax
+  wf : o.bs ≤ 0xFF ∧ o.stmin ≤ 0xFF ∧ o.wftmax ≤ 0xFF
+
+theorem FcSt.mk' {s : Sock} {x y z : PyVal} {o : KFc} {env env' : Env} (h : FcSt s x y z o env)
+    {ks : List String} (hoff : EqOff ks env env') (hd : ∀ k ∈ fcKeys ++ ["o", "#calls"], k ∉ ks) (o' : KFc)
+    (f1 : IntAt env' "o.bs" o'.bs) (f2 : IntAt env' "o.stmin" o'.stmin) (f3 : IntAt env' "o.wftmax" o'.wftmax)
+    (wf : o'.bs ≤ 0xFF ∧ o'.stmin ≤ 0xFF ∧ o'.wftmax ≤ 0xFF) : FcSt s x y z o' env' where
+  stat := fun k hk => (hoff k (hd k (List.mem_append_left _ hk))).trans (h.stat k hk)
+  calls := (hoff _ (hd _ (by simp))).trans h.calls
+  obj := (hoff "o" (hd "o" (by simp))).trans h.obj
+  f1 := f1
+  f2 := f2
+  f3 := f3
+  wf := wf
+
+def fcUpd1 (x : PyVal) (o : KFc) : KFc := if x.isNone then o else { o with bs := x.intVal.toNat }
+def fcUpd2 (y : PyVal) (o : KFc) : KFc := if y.isNone then o else { o with stmin := y.intVal.toNat }
+def fcUpd3 (z : PyVal) (o : KFc) : KFc := if z.isNone then o else { o with wftmax := z.intVal.toNat }
+
+/-- the model, as a sequence of stages -/
+theorem writeFc_eq (s : Sock) (x y z : PyVal) : writeFc s x y z =
+    if rej x 0xFF || rej y 0xFF || rej z 0xFF then .error .ValueError else
+    .ok (s.sso optRECV_FC (layoutFc (fcUpd3 z (fcUpd2 y (fcUpd1 x (parseFc (layoutFc s.k.fc)))))),
+      fcUpd3 z (fcUpd2 y (fcUpd1 x (parseFc (layoutFc s.k.fc))))) := by
+  cases h1 : rej x 0xFF <;> cases h2 : rej y 0xFF <;> cases h3 : rej z 0xFF <;> simp only [rej] at h1 h2 h3 <;>
+    simp only [writeFc, fcUpd1, fcUpd2, fcUpd3, h1, h2, h3] <;> rfl
+
+def fcStmt1 : PStmt := guarded (.cmp .ne (.var "bs") .none) "bs" 255 (.cons (.assign "o.bs" (.var "bs")) .nil)
+def fcStmt2 : PStmt := guarded (.cmp .ne (.var "stmin") .none) "stmin" 255 (.cons (.assign "o.stmin" (.var "stmin")) .nil)
+def fcStmt3 : PStmt := guarded (.cmp .ne (.var "wftmax") .none) "wftmax" 255 (.cons (.assign "o.wftmax" (.var "wftmax")) .nil)
+def fcTail : PBlock :=
+  .cons (.assign "opt" (.call "struct.pack" (.cons (.strLit "=BBB") (.cons (.var "o.bs") (.cons (.var "o.stmin")
+    (.cons (.var "o.wftmax") .nil))))))
+  (.cons (stmtSso "CAN_ISOTP_RECV_FC") (.cons (.ret (.var "o")) .nil))
+
+/-- the dumped source, statement by statement -/
+theorem fc_body_eq : Src.FlowControlOpts_write =
+    .cons stmtAssertSocket (.cons stmtRead (.cons fcStmt1 (.cons fcStmt2 (.cons fcStmt3 fcTail)))) := rfl
+
+theorem fc_stage1 (M : Meths) {s : Sock} {x y z : PyVal} {o : KFc} {env : Env} (h : FcSt s x y z o env) :
+    ∃ env', execStmt M env fcStmt1 = (if rej x 0xFF then .error (.exc .ValueError) else .ok (.next env')) ∧
+      (rej x 0xFF = false → FcSt s x y z (fcUpd1 x o) env') := by
+  have hv : env "bs" = some (.sc (.py x)) := (h.stat _ (by decide)).trans (fcEnv_a1 s x y z)
+  rw [fcStmt1, guarded_exec M env _ _ _ _ _ hv (eval_ne_none_var M env _ _ hv)]
+  cases hr : rej x 0xFF
+  · cases hn : x.isNone
+    · refine ⟨env.set "o.bs" (.sc (.py x)), ?_, fun _ => ?_⟩
+      · simp [execBlock, exec_assign_var M env _ _ _ hv]
+      · have hoff : EqOff ["o.bs"] env (env.set "o.bs" (.sc (.py x))) := (EqOff.refl _ _).set _ _ (by decide)
+        have e : fcUpd1 x o = { o with bs := x.intVal.toNat } := by simp [fcUpd1, hn]
+        obtain ⟨w1, w2, w3⟩ := h.wf
+        rw [e]
+        exact h.mk' hoff (by decide) _ ⟨_, Env.set_self _ _ _, asInt_given _ _ hr hn⟩ (h.f2.of_eqOff hoff (by decide))
+          (h.f3.of_eqOff hoff (by decide)) ⟨toNat_le_given _ 0xFF hr hn, w2, w3⟩
+    · exact ⟨env, by simp, fun _ => by simpa [fcUpd1, hn] using h⟩
+  · exact ⟨env, by simp, by simp⟩
+
+theorem fc_stage2 (M : Meths) {s : Sock} {x y z : PyVal} {o : KFc} {env : Env} (h : FcSt s x y z o env) :
+    ∃ env', execStmt M env fcStmt2 = (if rej y 0xFF then .error (.exc .ValueError) else .ok (.next env')) ∧
+      (rej y 0xFF = false → FcSt s x y z (fcUpd2 y o) env') := by
+  have hv : env "stmin" = some (.sc (.py y)) := (h.stat _ (by decide)).trans (fcEnv_a2 s x y z)
+  rw [fcStmt2, guarded_exec M env _ _ _ _ _ hv (eval_ne_none_var M env _ _ hv)]
+  cases hr : rej y 0xFF
+  · cases hn : y.isNone
+    · refine ⟨env.set "o.stmin" (.sc (.py y)), ?_, fun _ => ?_⟩
+      · simp [execBlock, exec_assign_var M env _ _ _ hv]
+      · have hoff : EqOff ["o.stmin"] env (env.set "o.stmin" (.sc (.py y))) := (EqOff.refl _ _).set _ _ (by decide)
+        have e : fcUpd2 y o = { o with stmin := y.intVal.toNat } := by simp [fcUpd2, hn]
+        obtain ⟨w1, w2, w3⟩ := h.wf
+        rw [e]
+        exact h.mk' hoff (by decide) _ (h.f1.of_eqOff hoff (by decide)) ⟨_, Env.set_self _ _ _, asInt_given _ _ hr hn⟩
+          (h.f3.of_eqOff hoff (by decide)) ⟨w1, toNat_le_given _ 0xFF hr hn, w3⟩
+    · exact ⟨env, by simp, fun _ => by simpa [fcUpd2, hn] using h⟩
+  · exact ⟨env, by simp, by simp⟩
+
+theorem fc_stage3 (M : Meths) {s : Sock} {x y z : PyVal} {o : KFc} {env : Env} (h : FcSt s x y z o env) :
+    ∃ env', execStmt M env fcStmt3 = (if rej z 0xFF then .error (.exc .ValueError) else .ok (.next env')) ∧
+      (rej z 0xFF = false → FcSt s x y z (fcUpd3 z o) env') := by
+  have hv : env "wftmax" = some (.sc (.py z)) := (h.stat _ (by decide)).trans (fcEnv_a3 s x y z)
+  rw [fcStmt3, guarded_exec M env _ _ _ _ _ hv (eval_ne_none_var M env _ _ hv)]
+  cases hr : rej z 0xFF
+  · cases hn : z.isNone
+    · refine ⟨env.set "o.wftmax" (.sc (.py z)), ?_, fun _ => ?_⟩
+      · simp [execBlock, exec_assign_var M env _ _ _ hv]
+      · have hoff : EqOff ["o.wftmax"] env (env.set "o.wftmax" (.sc (.py z))) := (EqOff.refl _ _).set _ _ (by decide)
+        have e : fcUpd3 z o = { o with wftmax := z.intVal.toNat } := by simp [fcUpd3, hn]
+        obtain ⟨w1, w2, w3⟩ := h.wf
+        rw [e]
+        exact h.mk' hoff (by decide) _ (h.f1.of_eqOff hoff (by decide)) (h.f2.of_eqOff hoff (by decide))
+          ⟨_, Env.set_self _ _ _, asInt_given _ _ hr hn⟩ ⟨w1, w2, toNat_le_given _ 0xFF hr hn⟩
+    · exact ⟨env, by simp, fun _ => by simpa [fcUpd3, hn] using h⟩
+  · exact ⟨env, by simp, by simp⟩
+
+/-- the state after `assert_is_socket(s); o = cls.read(s)` -/
+theorem fc_init (s : Sock) (x y z : PyVal) :
+    FcSt s x y z (parseFc (layoutFc s.k.fc)) ((fcEnv s x y z).set "o" (.meth "o")) where
+  stat := fun k hk => Env.set_ne _ _ _ _ (by rintro rfl; revert hk; decide)
+  calls := (Env.set_ne _ _ _ _ (by decide)).trans (fcEnv_calls s x y z)
+  obj := Env.set_self _ _ _
+  f1 := ⟨_, (Env.set_ne _ _ _ _ (by decide)).trans (fcEnv_o1 s x y z), asInt_pint _⟩
+  f2 := ⟨_, (Env.set_ne _ _ _ _ (by decide)).trans (fcEnv_o2 s x y z), asInt_pint _⟩
+  f3 := ⟨_, (Env.set_ne _ _ _ _ (by decide)).trans (fcEnv_o3 s x y z), asInt_pint _⟩
+  wf := ⟨byteAt_le _ _, byteAt_le _ _, byteAt_le _ _⟩
+
+/-- the body up to (not including) `opt = struct.pack(..)`, for any semantics of `s.setsockopt` (none is executed) -/
+theorem fc_run (sso) (s : Sock) (x y z : PyVal) :
+    ∃ env3, execBlock (sockMeths sso) (fcEnv s x y z) Src.FlowControlOpts_write =
+        (if rej x 0xFF || rej y 0xFF || rej z 0xFF then .error (.exc .ValueError) else execBlock (sockMeths sso) env3 fcTail) ∧
+      ((rej x 0xFF || rej y 0xFF || rej z 0xFF) = false →
+        FcSt s x y z (fcUpd3 z (fcUpd2 y (fcUpd1 x (parseFc (layoutFc s.k.fc))))) env3) := by
+  rw [fc_body_eq, execBlock_cons_ok _ _ _ _ _ (stmtAssertSocket_exec sso _ (fcEnv_s s x y z)),
+    execBlock_cons_ok _ _ _ _ _ (stmtRead_exec sso _ (fcEnv_s s x y z))]
+  obtain ⟨e1, x1, g1⟩ := fc_stage1 (sockMeths sso) (fc_init s x y z)
+  rw [execBlock_cons_stage _ _ _ _ _ _ _ x1]
+  cases r1 : rej x 0xFF
+  case true => exact ⟨fcEnv s x y z, by simp, by simp⟩
+  obtain ⟨e2, x2, g2⟩ := fc_stage2 (sockMeths sso) (g1 r1)
+  simp only [Bool.false_eq_true, if_false]
+  rw [execBlock_cons_stage _ _ _ _ _ _ _ x2]
+  cases r2 : rej y 0xFF
+  case true => exact ⟨fcEnv s x y z, by simp, by simp⟩
+  obtain ⟨e3, x3, g3⟩ := fc_stage3 (sockMeths sso) (g2 r2)
+  simp only [Bool.false_eq_true, if_false]
+  rw [execBlock_cons_stage _ _ _ _ _ _ _ x3]
+  cases r3 : rej z 0xFF
+  case true => exact ⟨fcEnv s x y z, by simp, by simp⟩
+  exact ⟨e3, by simp, fun _ => g3 r3⟩
+
+/-- `opt = struct.pack("=BBB", ..); s.setsockopt(SOL_CAN_ISOTP, CAN_ISOTP_RECV_FC, opt); return o` -/
+theorem fc_tail_exec (sso) {s : Sock} {x y z : PyVal} {o : KFc} {env : Env} (h : FcSt s x y z o env) :
+    execBlock (sockMeths sso) env fcTail =
+      (sso [pint (solCanIsotp : Nat), pint (optRECV_FC : Nat), .bytes (layoutFc o)] (env.set "opt" (.bytes (layoutFc o))) >>=
+        fun e => execBlock (sockMeths sso) e (.cons (.ret (.var "o")) .nil)) := by
+  obtain ⟨x1, l1, i1⟩ := h.f1
+  obtain ⟨x2, l2, i2⟩ := h.f2
+  obtain ⟨x3, l3, i3⟩ := h.f3
+  obtain ⟨w1, w2, w3⟩ := h.wf
+  have hp : structPack [.str "=BBB", x1, x2, x3] = .ok (.bytes (layoutFc o)) := structPack_BBB x1 x2 x3 _ _ _ i1 i2 i3 w1 w2 w3
+  have hl : env "SOL_CAN_ISOTP" = some (pint (solCanIsotp : Nat)) := (h.stat _ (by decide)).trans (fcEnv_SOL s x y z)
+  have ho : env "CAN_ISOTP_RECV_FC" = some (pint (optRECV_FC : Nat)) := (h.stat _ (by decide)).trans (fcEnv_OPT s x y z)
+  have s1 : execStmt (sockMeths sso) env (.assign "opt" (.call "struct.pack" (.cons (.strLit "=BBB") (.cons (.var "o.bs")
+      (.cons (.var "o.stmin") (.cons (.var "o.wftmax") .nil)))))) = .ok (.next (env.set "opt" (.bytes (layoutFc o)))) := by
+    simp [execStmt, evalArgs, eval, l1, l2, l3, eb_struct_pack, sockMeths_pack, hp]
+  rw [fcTail, execBlock_cons_ok _ _ _ _ _ s1]
+  have s2 := stmtSso_exec sso (env.set "opt" (.bytes (layoutFc o))) "CAN_ISOTP_RECV_FC" _ _ _
+    ((Env.set_ne _ _ _ _ (by decide)).trans hl) ((Env.set_ne _ _ _ _ (by decide)).trans ho) (Env.set_self _ _ _)
+  rw [execBlock, s2]
+  cases sso [pint (solCanIsotp : Nat), pint (optRECV_FC : Nat), .bytes (layoutFc o)] (env.set "opt" (.bytes (layoutFc o))) <;> rfl
+
+/-- the object `o` of the run holds the integers `o'` -/
+def FcObj (env : Env) (o' : KFc) : Prop :=
+  IntAt env "o.bs" o'.bs ∧ IntAt env "o.stmin" o'.stmin ∧ IntAt env "o.wftmax" o'.wftmax
+
+/-- **`FlowControlOpts.write` rejects what the model rejects, with `ValueError`, whatever `s.setsockopt` would do**
+    (so: before the `s.setsockopt` statement is executed). -/
+theorem FlowControlOpts_write_reject_any (sso) (s : Sock) (x y z : PyVal) (e : PyExc) (h : writeFc s x y z = .error e) :
+    e = .ValueError ∧ runFn (sockMeths sso) (fcEnv s x y z) Src.FlowControlOpts_write = .error (.exc .ValueError) := by
+  rw [writeFc_eq] at h
+  obtain ⟨env3, hx, _⟩ := fc_run sso s x y z
+  cases hr : rej x 0xFF || rej y 0xFF || rej z 0xFF
+  · simp [hr] at h
+  · simp only [hr, if_true] at h
+    exact ⟨by injection h with h; exact h.symm, by simp [runFn, hx, hr]⟩
+
+/-- **`FlowControlOpts.write` accepts what the model accepts**: it returns the object `o`, whose attributes then hold the
+    fields of the model's result `o'`, and exactly one `setsockopt` call has been recorded, the one the model adds:
+    `(SOL_CAN_ISOTP, CAN_ISOTP_RECV_FC, layoutFc o')`.  (`struct.pack` never fails.) -/
+theorem FlowControlOpts_write_accept (s : Sock) (x y z : PyVal) (s' : Sock) (o' : KFc) (h : writeFc s x y z = .ok (s', o')) :
+    ∃ env', runFn recMeths (fcEnv s x y z) Src.FlowControlOpts_write = .ok (.meth "o", env') ∧ FcObj env' o' ∧
+      recorded env' = some [.setopt solCanIsotp optRECV_FC (layoutFc o')] ∧
+      s'.calls = .setopt solCanIsotp optRECV_FC (layoutFc o') :: s.calls := by
+  rw [writeFc_eq] at h
+  obtain ⟨env3, hx, hg⟩ := fc_run recordSso s x y z
+  cases hr : rej x 0xFF || rej y 0xFF || rej z 0xFF
+  case true => simp [hr] at h
+  simp only [hr, Bool.false_eq_true, if_false, Except.ok.injEq, Prod.mk.injEq] at h
+  obtain ⟨hs', ho'⟩ := h
+  have g := hg hr
+  rw [ho'] at g hs'
+  have hc : (env3.set "opt" (.bytes (layoutFc o'))) "#calls" = some (pint ((0 : Nat) : Int)) :=
+    (Env.set_ne _ _ _ _ (by decide)).trans g.calls
+  obtain ⟨c0, c1, c2, c3, hoff⟩ := logCall_0 (env3.set "opt" (.bytes (layoutFc o'))) (solCanIsotp : Nat) (optRECV_FC : Nat) (layoutFc o')
+  have hoff' : EqOff ("opt" :: keys0) env3
+      (logCall (env3.set "opt" (.bytes (layoutFc o'))) 0 (solCanIsotp : Nat) (optRECV_FC : Nat) (layoutFc o')) :=
+    (((EqOff.refl _ env3).set "opt" (.bytes (layoutFc o')) (by decide)).trans (hoff.mono (by decide)))
+  have hobj := (hoff' "o" (by decide)).trans g.obj
+  refine ⟨_, ?_, ⟨g.f1.of_eqOff hoff' (by decide), g.f2.of_eqOff hoff' (by decide), g.f3.of_eqOff hoff' (by decide)⟩,
+    recorded_one _ _ _ _ c0 c1 c2 c3, by rw [← hs']; rfl⟩
+  rw [recMeths, runFn, hx, hr]
+  simp only [Bool.false_eq_true, if_false]
+  rw [fc_tail_exec recordSso g, recordSso_at _ 0 _ _ _ hc]
+  simp [execBlock, execStmt, eval, hobj]
+
+/-- non-vacuity of the `failMeths` argument: an ACCEPTED call does reach `s.setsockopt` -/
+theorem FlowControlOpts_write_accept_fail (s : Sock) (x y z : PyVal) (r : Sock × KFc) (h : writeFc s x y z = .ok r) :
+    runFn failMeths (fcEnv s x y z) Src.FlowControlOpts_write = .error (.unsupported "setsockopt") := by
+  rw [writeFc_eq] at h
+  obtain ⟨env3, hx, hg⟩ := fc_run failSso s x y z
+  cases hr : rej x 0xFF || rej y 0xFF || rej z 0xFF
+  case true => simp [hr] at h
+  rw [failMeths, runFn, hx, hr]
+  simp [fc_tail_exec failSso (hg hr), failSso]
+
+/-! ## 5. `LinkLayerOpts.write` -/
+
+/-- the world `LinkLayerOpts.write(s, mtu, tx_dl, tx_flags)` runs in (see the head of the file) -/
+def llEnv (s : Sock) (x y z : PyVal) : Env := fun k =>
+  match k with
+  | "s" => some (.meth "s")
+  | "mtu" => some (.sc (.py x))
+  | "tx_dl" => some (.sc (.py y))
+  | "tx_flags" => some (.sc (.py z))
+  | "o.mtu" => some (pint ((parseLl (layoutLl s.k.ll)).mtu : Nat))
+  | "o.tx_dl" => some (pint ((parseLl (layoutLl s.k.ll)).txDl : Nat))
+  | "o.tx_flags" => some (pint ((parseLl (layoutLl s.k.ll)).txFlags : Nat))
+  | "SOL_CAN_ISOTP" => some (pint (solCanIsotp : Nat))
+  | "#calls" => some (pint ((0 : Nat) : Int))
+  | _ => constEnv k
+
+section llLookups
+variable (s : Sock) (x y z : PyVal)
+theorem llEnv_s : llEnv s x y z "s" = some (.meth "s") := rfl
+theorem llEnv_a1 : llEnv s x y z "mtu" = some (.sc (.py x)) := rfl
+theorem llEnv_a2 : llEnv s x y z "tx_dl" = some (.sc (.py y)) := rfl
+theorem llEnv_a3 : llEnv s x y z "tx_flags" = some (.sc (.py z)) := rfl
+theorem llEnv_o1 : llEnv s x y z "o.mtu" = some (pint ((parseLl (layoutLl s.k.ll)).mtu : Nat)) := rfl
+theorem llEnv_o2 : llEnv s x y z "o.tx_dl" = some (pint ((parseLl (layoutLl s.k.ll)).txDl : Nat)) := rfl
+theorem llEnv_o3 : llEnv s x y z "o.tx_flags" = some (pint ((parseLl (layoutLl s.k.ll)).txFlags : Nat)) := rfl
+theorem llEnv_SOL : llEnv s x y z "SOL_CAN_ISOTP" = some (pint (solCanIsotp : Nat)) := rfl
+theorem llEnv_calls : llEnv s x y z "#calls" = some (pint ((0 : Nat) : Int)) := rfl
+/- the option number, as dumped from the source (`Src.consts`) -/
+theorem llEnv_OPT : llEnv s x y z "CAN_ISOTP_LL_OPTS" = some (pint (optLL_OPTS : Nat)) := rfl
+end llLookups
+
+/-- names never assigned by `LinkLayerOpts.write` -/
+def llKeys : List String := ["s", "mtu", "tx_dl", "tx_flags", "SOL_CAN_ISOTP", "CAN_ISOTP_LL_OPTS"]
+
+/-- `env` is a state of the run of `LinkLayerOpts.write(s, x, y, z)` in which the object `o` holds the integers `o`
+    and no call of `setsockopt` has been recorded -/
+structure LlSt (s : Sock) (x y z : PyVal) (o : KLl) (env : Env) : Prop where
+  stat : ∀ k ∈ llKeys, env k = llEnv s x y z k
+  calls : env "#calls" = some (pint ((0 : Nat) : Int))
+  obj : env "o" = some (.meth "o")
+  f1 : IntAt env "o.mtu" o.mtu
+  f2 : IntAt env "o.tx_dl" o.txDl
+  f3 : IntAt env "o.tx_flags" o.txFlags
+  wf : o.mtu ≤ 0xFF ∧ o.txDl ≤ 0xFF ∧ o.txFlags ≤ 0xFF
+
+theorem LlSt.mk' {s : Sock} {x y z : PyVal} {o : KLl} {env env' : Env} (h : LlSt s x y z o env)
+    {ks : List String} (hoff : EqOff ks env env') (hd : ∀ k ∈ llKeys ++ ["o", "#calls"], k ∉ ks) (o' : KLl)
+    (f1 : IntAt env' "o.mtu" o'.mtu) (f2 : IntAt env' "o.tx_dl" o'.txDl) (f3 : IntAt env' "o.tx_flags" o'.txFlags)
+    (wf : o'.mtu ≤ 0xFF ∧ o'.txDl ≤ 0xFF ∧ o'.txFlags ≤ 0xFF) : LlSt s x y z o' env' where
+  stat := fun k hk => (hoff k (hd k (List.mem_append_left _ hk))).trans (h.stat k hk)
+  calls := (hoff _ (hd _ (by simp))).trans h.calls
+  obj := (hoff "o" (hd "o" (by simp))).trans h.obj
+  f1 := f1
+  f2 := f2
+  f3 := f3
+  wf := wf
+
+def llUpd1 (x : PyVal) (o : KLl) : KLl := if x.isNone then o else { o with mtu := x.intVal.toNat }
+def llUpd2 (y : PyVal) (o : KLl) : KLl := if y.isNone then o else { o with txDl := y.intVal.toNat }
+def llUpd3 (z : PyVal) (o : KLl) : KLl := if z.isNone then o else { o with txFlags := z.intVal.toNat }
+
+/-- the model, as a sequence of stages -/
+theorem writeLl_eq (s : Sock) (x y z : PyVal) : writeLl s x y z =
+    if rej x 0xFF || rej y 0xFF || rej z 0xFF then .error .ValueError else
+    .ok (s.sso optLL_OPTS (layoutLl (llUpd3 z (llUpd2 y (llUpd1 x (parseLl (layoutLl s.k.ll)))))),
+      llUpd3 z (llUpd2 y (llUpd1 x (parseLl (layoutLl s.k.ll))))) := by
+  cases h1 : rej x 0xFF <;> cases h2 : rej y 0xFF <;> cases h3 : rej z 0xFF <;> simp only [rej] at h1 h2 h3 <;>
+    simp only [writeLl, llUpd1, llUpd2, llUpd3, h1, h2, h3] <;> rfl
+
+def llStmt1 : PStmt := guarded (.cmp .ne (.var "mtu") .none) "mtu" 255 (.cons (.assign "o.mtu" (.var "mtu")) .nil)
+def llStmt2 : PStmt := guarded (.cmp .ne (.var "tx_dl") .none) "tx_dl" 255 (.cons (.assign "o.tx_dl" (.var "tx_dl")) .nil)
+def llStmt3 : PStmt := guarded (.cmp .ne (.var "tx_flags") .none) "tx_flags" 255 (.cons (.assign "o.tx_flags" (.var "tx_flags")) .nil)
+def llTail : PBlock :=
+  .cons (.assign "opt" (.call "struct.pack" (.cons (.strLit "=BBB") (.cons (.var "o.mtu") (.cons (.var "o.tx_dl")
+    (.cons (.var "o.tx_flags") .nil))))))
+  (.cons (stmtSso "CAN_ISOTP_LL_OPTS") (.cons (.ret (.var "o")) .nil))
+
+/-- the dumped source, statement by statement -/
+theorem ll_body_eq : Src.LinkLayerOpts_write =
+    .cons stmtAssertSocket (.cons stmtRead (.cons llStmt1 (.cons llStmt2 (.cons llStmt3 llTail)))) := rfl
+
+theorem ll_stage1 (M : Meths) {s : Sock} {x y z : PyVal} {o : KLl} {env : Env} (h : LlSt s x y z o env) :
+    ∃ env', execStmt M env llStmt1 = (if rej x 0xFF then .error (.exc .ValueError) else .ok (.next env')) ∧
+      (rej x 0xFF = false → LlSt s x y z (llUpd1 x o) env') := by
+  have hv : env "mtu" = some (.sc (.py x)) := (h.stat _ (by decide)).trans (llEnv_a1 s x y z)
+  rw [llStmt1, guarded_exec M env _ _ _ _ _ hv (eval_ne_none_var M env _ _ hv)]
+  cases hr : rej x 0xFF
+  · cases hn : x.isNone
+    · refine ⟨env.set "o.mtu" (.sc (.py x)), ?_, fun _ => ?_⟩
+      · simp [execBlock, exec_assign_var M env _ _ _ hv]
+      · have hoff : EqOff ["o.mtu"] env (env.set "o.mtu" (.sc (.py x))) := (EqOff.refl _ _).set _ _ (by decide)
+        have e : llUpd1 x o = { o with mtu := x.intVal.toNat } := by simp [llUpd1, hn]
+        obtain ⟨w1, w2, w3⟩ := h.wf
+        rw [e]
+        exact h.mk' hoff (by decide) _ ⟨_, Env.set_self _ _ _, asInt_given _ _ hr hn⟩ (h.f2.of_eqOff hoff (by decide))
+          (h.f3.of_eqOff hoff (by decide)) ⟨toNat_le_given _ 0xFF hr hn, w2, w3⟩
+    · exact ⟨env, by simp, fun _ => by simpa [llUpd1, hn] using h⟩
+  · exact ⟨env, by simp, by simp⟩
+
+theorem ll_stage2 (M : Meths) {s : Sock} {x y z : PyVal} {o : KLl} {env : Env} (h : LlSt s x y z o env) :
+    ∃ env', execStmt M env llStmt2 = (if rej y 0xFF then .error (.exc .ValueError) else .ok (.next env')) ∧
+      (rej y 0xFF = false → LlSt s x y z (llUpd2 y o) env') := by
+  have hv : env "tx_dl" = some (.sc (.py y)) := (h.stat _ (by decide)).trans (llEnv_a2 s x y z)
+  rw [llStmt2, guarded_exec M env _ _ _ _ _ hv (eval_ne_none_var M env _ _ hv)]
+  cases hr : rej y 0xFF
+  · cases hn : y.isNone
+    · refine ⟨env.set "o.tx_dl" (.sc (.py y)), ?_, fun _ => ?_⟩
+      · simp [execBlock, exec_assign_var M env _ _ _ hv]
+      · have hoff : EqOff ["o.tx_dl"] env (env.set "o.tx_dl" (.sc (.py y))) := (EqOff.refl _ _).set _ _ (by decide)
+        have e : llUpd2 y o = { o with txDl := y.intVal.toNat } := by simp [llUpd2, hn]
+        obtain ⟨w1, w2, w3⟩ := h.wf
+        rw [e]
+        exact h.mk' hoff (by decide) _ (h.f1.of_eqOff hoff (by decide)) ⟨_, Env.set_self _ _ _, asInt_given _ _ hr hn⟩
+          (h.f3.of_eqOff hoff (by decide)) ⟨w1, toNat_le_given _ 0xFF hr hn, w3⟩
+    · exact ⟨env, by simp, fun _ => by simpa [llUpd2, hn] using h⟩
+  · exact ⟨env, by simp, by simp⟩
+
+theorem ll_stage3 (M : Meths) {s : Sock} {x y z : PyVal} {o : KLl} {env : Env} (h : LlSt s x y z o env) :
+    ∃ env', execStmt M env llStmt3 = (if rej z 0xFF then .error (.exc .ValueError) else .ok (.next env')) ∧
+      (rej z 0xFF = false → LlSt s x y z (llUpd3 z o) env') := by
+  have hv : env "tx_flags" = some (.sc (.py z)) := (h.stat _ (by decide)).trans (llEnv_a3 s x y z)
+  rw [llStmt3, guarded_exec M env _ _ _ _ _ hv (eval_ne_none_var M env _ _ hv)]
+  cases hr : rej z 0xFF
+  · cases hn : z.isNone
+    · refine ⟨env.set "o.tx_flags" (.sc (.py z)), ?_, fun _ => ?_⟩
+      · simp [execBlock, exec_assign_var M env _ _ _ hv]
+      · have hoff : EqOff ["o.tx_flags"] env (env.set "o.tx_flags" (.sc (.py z))) := (EqOff.refl _ _).set _ _ (by decide)
+        have e : llUpd3 z o = { o with txFlags := z.intVal.toNat } := by simp [llUpd3, hn]
+        obtain ⟨w1, w2, w3⟩ := h.wf
+        rw [e]
+        exact h.mk' hoff (by decide) _ (h.f1.of_eqOff hoff (by decide)) (h.f2.of_eqOff hoff (by decide))
+          ⟨_, Env.set_self _ _ _, asInt_given _ _ hr hn⟩ ⟨w1, w2, toNat_le_given _ 0xFF hr hn⟩
+    · exact ⟨env, by simp, fun _ => by simpa [llUpd3, hn] using h⟩
+  · exact ⟨env, by simp, by simp⟩
+
+/-- the state after `assert_is_socket(s); o = cls.read(s)` -/
+theorem ll_init (s : Sock) (x y z : PyVal) :
+    LlSt s x y z (parseLl (layoutLl s.k.ll)) ((llEnv s x y z).set "o" (.meth "o")) where
+  stat := fun k hk => Env.set_ne _ _ _ _ (by rintro rfl; revert hk; decide)
+  calls := (Env.set_ne _ _ _ _ (by decide)).trans (llEnv_calls s x y z)
+  obj := Env.set_self _ _ _
+  f1 := ⟨_, (Env.set_ne _ _ _ _ (by decide)).trans (llEnv_o1 s x y z), asInt_pint _⟩
+  f2 := ⟨_, (Env.set_ne _ _ _ _ (by decide)).trans (llEnv_o2 s x y z), asInt_pint _⟩
+  f3 := ⟨_, (Env.set_ne _ _ _ _ (by decide)).trans (llEnv_o3 s x y z), asInt_pint _⟩
+  wf := ⟨byteAt_le _ _, byteAt_le _ _, byteAt_le _ _⟩
+
+/-- the body up to (not including) `opt = struct.pack(..)`, for any semantics of `s.setsockopt` (none is executed) -/
+theorem ll_run (sso) (s : Sock) (x y z : PyVal) :
+    ∃ env3, execBlock (sockMeths sso) (llEnv s x y z) Src.LinkLayerOpts_write =
+        (if rej x 0xFF || rej y 0xFF || rej z 0xFF then .error (.exc .ValueError) else execBlock (sockMeths sso) env3 llTail) ∧
+      ((rej x 0xFF || rej y 0xFF || rej z 0xFF) = false →
+        LlSt s x y z (llUpd3 z (llUpd2 y (llUpd1 x (parseLl (layoutLl s.k.ll))))) env3) := by
+  rw [ll_body_eq, execBlock_cons_ok _ _ _ _ _ (stmtAssertSocket_exec sso _ (llEnv_s s x y z)),
+    execBlock_cons_ok _ _ _ _ _ (stmtRead_exec sso _ (llEnv_s s x y z))]
+  obtain ⟨e1, x1, g1⟩ := ll_stage1 (sockMeths sso) (ll_init s x y z)
+  rw [execBlock_cons_stage _ _ _ _ _ _ _ x1]
+  cases r1 : rej x 0xFF
+  case true => exact ⟨llEnv s x y z, by simp, by simp⟩
+  obtain ⟨e2, x2, g2⟩ := ll_stage2 (sockMeths sso) (g1 r1)
+  simp only [Bool.false_eq_true, if_false]
+  rw [execBlock_cons_stage _ _ _ _ _ _ _ x2]
+  cases r2 : rej y 0xFF
+  case true => exact ⟨llEnv s x y z, by simp, by simp⟩
+  obtain ⟨e3, x3, g3⟩ := ll_stage3 (sockMeths sso) (g2 r2)
+  simp only [Bool.false_eq_true, if_false]
+  rw [execBlock_cons_stage _ _ _ _ _ _ _ x3]
+  cases r3 : rej z 0xFF
+  case true => exact ⟨llEnv s x y z, by simp, by simp⟩
+  exact ⟨e3, by simp, fun _ => g3 r3⟩
+
+/-- `opt = struct.pack("=BBB", ..); s.setsockopt(SOL_CAN_ISOTP, CAN_ISOTP_LL_OPTS, opt); return o` -/
+theorem ll_tail_exec (sso) {s : Sock} {x y z : PyVal} {o : KLl} {env : Env} (h : LlSt s x y z o env) :
+    execBlock (sockMeths sso) env llTail =
+      (sso [pint (solCanIsotp : Nat), pint (optLL_OPTS : Nat), .bytes (layoutLl o)] (env.set "opt" (.bytes (layoutLl o))) >>=
+        fun e => execBlock (sockMeths sso) e (.cons (.ret (.var "o")) .nil)) := by
+  obtain ⟨x1, l1, i1⟩ := h.f1
+  obtain ⟨x2, l2, i2⟩ := h.f2
+  obtain ⟨x3, l3, i3⟩ := h.f3
+  obtain ⟨w1, w2, w3⟩ := h.wf
+  have hp : structPack [.str "=BBB", x1, x2, x3] = .ok (.bytes (layoutLl o)) := structPack_BBB x1 x2 x3 _ _ _ i1 i2 i3 w1 w2 w3
+  have hl : env "SOL_CAN_ISOTP" = some (pint (solCanIsotp : Nat)) := (h.stat _ (by decide)).trans (llEnv_SOL s x y z)
+  have ho : env "CAN_ISOTP_LL_OPTS" = some (pint (optLL_OPTS : Nat)) := (h.stat _ (by decide)).trans (llEnv_OPT s x y z)
+  have s1 : execStmt (sockMeths sso) env (.assign "opt" (.call "struct.pack" (.cons (.strLit "=BBB") (.cons (.var "o.mtu")
+      (.cons (.var "o.tx_dl") (.cons (.var "o.tx_flags") .nil)))))) = .ok (.next (env.set "opt" (.bytes (layoutLl o)))) := by
+    simp [execStmt, evalArgs, eval, l1, l2, l3, eb_struct_pack, sockMeths_pack, hp]
+  rw [llTail, execBlock_cons_ok _ _ _ _ _ s1]
+  have s2 := stmtSso_exec sso (env.set "opt" (.bytes (layoutLl o))) "CAN_ISOTP_LL_OPTS" _ _ _
+    ((Env.set_ne _ _ _ _ (by decide)).trans hl) ((Env.set_ne _ _ _ _ (by decide)).trans ho) (Env.set_self _ _ _)
+  rw [execBlock, s2]
+  cases sso [pint (solCanIsotp : Nat), pint (optLL_OPTS : Nat), .bytes (layoutLl o)] (env.set "opt" (.bytes (layoutLl o))) <;> rfl
+
+/-- the object `o` of the run holds the integers `o'` -/
+def LlObj (env : Env) (o' : KLl) : Prop :=
+  IntAt env "o.mtu" o'.mtu ∧ IntAt env "o.tx_dl" o'.txDl ∧ IntAt env "o.tx_flags" o'.txFlags
+
+/-- **`LinkLayerOpts.write` rejects what the model rejects, with `ValueError`, whatever `s.setsockopt` would do**
+    (so: before the `s.setsockopt` statement is executed). -/
+theorem LinkLayerOpts_write_reject_any (sso) (s : Sock) (x y z : PyVal) (e : PyExc) (h : writeLl s x y z = .error e) :
+    e = .ValueError ∧ runFn (sockMeths sso) (llEnv s x y z) Src.LinkLayerOpts_write = .error (.exc .ValueError) := by
+  rw [writeLl_eq] at h
+  obtain ⟨env3, hx, _⟩ := ll_run sso s x y z
+  cases hr : rej x 0xFF || rej y 0xFF || rej z 0xFF
+  · simp [hr] at h
+  · simp only [hr, if_true] at h
+    exact ⟨by injection h with h; exact h.symm, by simp [runFn, hx, hr]⟩
+
+/-- **`LinkLayerOpts.write` accepts what the model accepts**: it returns the object `o`, whose attributes then hold the
+    fields of the model's result `o'`, and exactly one `setsockopt` call has been recorded, the one the model adds:
+    `(SOL_CAN_ISOTP, CAN_ISOTP_LL_OPTS, layoutLl o')`.  (`struct.pack` never fails.) -/
+theorem LinkLayerOpts_write_accept (s : Sock) (x y z : PyVal) (s' : Sock) (o' : KLl) (h : writeLl s x y z = .ok (s', o')) :
+    ∃ env', runFn recMeths (llEnv s x y z) Src.LinkLayerOpts_write = .ok (.meth "o", env') ∧ LlObj env' o' ∧
+      recorded env' = some [.setopt solCanIsotp optLL_OPTS (layoutLl o')] ∧
+      s'.calls = .setopt solCanIsotp optLL_OPTS (layoutLl o') :: s.calls := by
+  rw [writeLl_eq] at h
+  obtain ⟨env3, hx, hg⟩ := ll_run recordSso s x y z
+  cases hr : rej x 0xFF || rej y 0xFF || rej z 0xFF
+  case true => simp [hr] at h
+  simp only [hr, Bool.false_eq_true, if_false, Except.ok.injEq, Prod.mk.injEq] at h
+  obtain ⟨hs', ho'⟩ := h
+  have g := hg hr
+  rw [ho'] at g hs'
+  have hc : (env3.set "opt" (.bytes (layoutLl o'))) "#calls" = some (pint ((0 : Nat) : Int)) :=
+    (Env.set_ne _ _ _ _ (by decide)).trans g.calls
+  obtain ⟨c0, c1, c2, c3, hoff⟩ := logCall_0 (env3.set "opt" (.bytes (layoutLl o'))) (solCanIsotp : Nat) (optLL_OPTS : Nat) (layoutLl o')
+  have hoff' : EqOff ("opt" :: keys0) env3
+      (logCall (env3.set "opt" (.bytes (layoutLl o'))) 0 (solCanIsotp : Nat) (optLL_OPTS : Nat) (layoutLl o')) :=
+    (((EqOff.refl _ env3).set "opt" (.bytes (layoutLl o')) (by decide)).trans (hoff.mono (by decide)))
+  have hobj := (hoff' "o" (by decide)).trans g.obj
+  refine ⟨_, ?_, ⟨g.f1.of_eqOff hoff' (by decide), g.f2.of_eqOff hoff' (by decide), g.f3.of_eqOff hoff' (by decide)⟩,
+    recorded_one _ _ _ _ c0 c1 c2 c3, by rw [← hs']; rfl⟩
+  rw [recMeths, runFn, hx, hr]
+  simp only [Bool.false_eq_true, if_false]
+  rw [ll_tail_exec recordSso g, recordSso_at _ 0 _ _ _ hc]
+  simp [execBlock, execStmt, eval, hobj]
+
+/-- non-vacuity of the `failMeths` argument: an ACCEPTED call does reach `s.setsockopt` -/
+theorem LinkLayerOpts_write_accept_fail (s : Sock) (x y z : PyVal) (r : Sock × KLl) (h : writeLl s x y z = .ok r) :
+    runFn failMeths (llEnv s x y z) Src.LinkLayerOpts_write = .error (.unsupported "setsockopt") := by
+  rw [writeLl_eq] at h
+  obtain ⟨env3, hx, hg⟩ := ll_run failSso s x y z
+  cases hr : rej x 0xFF || rej y 0xFF || rej z 0xFF
+  case true => simp [hr] at h
+  rw [failMeths, runFn, hx, hr]
+  simp [ll_tail_exec failSso (hg hr), failSso]
+
+/-! ## 6. `socket.set_opts`, `socket.set_fc_opts`, `socket.set_ll_opts` (isotp/tpsock/__init__.py)
+
+  `self.bound ↦ pbool s.bound`, `self._socket ↦ .meth "s"`, the arguments as before.  The dumper writes the keyword call
+  `opts.GeneralOpts.write(self._socket, optflag=optflag, ...)` as a call of the name
+  `opts.GeneralOpts.write#optflag#frame_txtime#...` (the keywords, in call order) on the positional and keyword values in that order;
+  it is presented as a `Meths.fn` that hands the values, keyword by keyword, to `callee` (what the writer does with them;
+  section 3 ties that to `writeOpts`).  Result: `RuntimeError` iff bound, else exactly one call of the writer with exactly the
+  wrapper's arguments, whose result is returned: this is `setOpts`. -/
+
+def setOptsEnv (s : Sock) (a : OptsArgs) : Env := fun k =>
+  match k with
+  | "self.bound" => some (pbool s.bound)
+  | "self._socket" => some (.meth "s")
+  | "optflag" => some (.sc (.py a.optflag))
+  | "frame_txtime" => some (.sc (.py a.frameTxtime))
+  | "ext_address" => some (.sc (.py a.extAddress))
+  | "txpad" => some (.sc (.py a.txpad))
+  | "rxpad" => some (.sc (.py a.rxpad))
+  | "rx_ext_address" => some (.sc (.py a.rxExtAddress))
+  | "tx_stmin" => some (.sc (.py a.txStmin))
+  | _ => constEnv k
+
+theorem setOptsEnv_lookups (s : Sock) (a : OptsArgs) :
+    setOptsEnv s a "self.bound" = some (pbool s.bound) ∧
+    setOptsEnv s a "self._socket" = some (.meth "s") ∧
+    setOptsEnv s a "optflag" = some (.sc (.py a.optflag)) ∧
+    setOptsEnv s a "frame_txtime" = some (.sc (.py a.frameTxtime)) ∧
+    setOptsEnv s a "ext_address" = some (.sc (.py a.extAddress)) ∧
+    setOptsEnv s a "txpad" = some (.sc (.py a.txpad)) ∧
+    setOptsEnv s a "rxpad" = some (.sc (.py a.rxpad)) ∧
+    setOptsEnv s a "rx_ext_address" = some (.sc (.py a.rxExtAddress)) ∧
+    setOptsEnv s a "tx_stmin" = some (.sc (.py a.txStmin)) := ⟨rfl, rfl, rfl, rfl, rfl, rfl, rfl, rfl, rfl⟩
+
+def genWriteName : String := "opts.GeneralOpts.write#optflag#frame_txtime#ext_address#txpad#rxpad#rx_ext_address#tx_stmin"
+
+def setOptsMeths (callee : OptsArgs → Except PErr PV) : Meths where
+  fn := fun n args _ =>
+    if n = genWriteName then
+      match args with
+      | [.meth "s", .sc (.py x1), .sc (.py x2), .sc (.py x3), .sc (.py x4), .sc (.py x5), .sc (.py x6), .sc (.py x7)] =>
+        callee { optflag := x1, frameTxtime := x2, extAddress := x3, txpad := x4, rxpad := x5, rxExtAddress := x6, txStmin := x7 }
+      | _ => .error (.unsupported "GeneralOpts.write: arguments")
+    else .error (.unsupported ("call " ++ n))
+  proc := fun n _ _ => .error (.unsupported ("call " ++ n))
+
+/-- how a result of the model's writer looks to the caller: the object, or the exception -/
+def writeResult {α : Type} (r : Except PyExc (Sock × α)) : Except PErr PV :=
+  match r with
+  | .ok _ => .ok (.meth "o")
+  | .error e => .error (.exc e)
+
+theorem eb_genWrite (vs : List PV) : evalBuiltin genWriteName vs = none := evalBuiltin_none_of _ _ (by decide)
+
+theorem socket_set_opts_body : Src.socket_set_opts =
+    .cons (.ite (.var "self.bound") (.cons (.raise "RuntimeError") .nil) .nil)
+    (.cons (.ret (.call genWriteName (.cons (.var "self._socket") (.cons (.var "optflag") (.cons (.var "frame_txtime")
+      (.cons (.var "ext_address") (.cons (.var "txpad") (.cons (.var "rxpad") (.cons (.var "rx_ext_address")
+      (.cons (.var "tx_stmin") .nil)))))))))) .nil) := rfl
+
+/-- `socket.set_opts`: `RuntimeError` iff bound; otherwise the writer is called once, with the wrapper's arguments keyword by
+    keyword, and its result (value or exception) is the wrapper's; the wrapper object is not modified. -/
+theorem socket_set_opts_exec (callee : OptsArgs → Except PErr PV) (s : Sock) (a : OptsArgs) :
+    runFn (setOptsMeths callee) (setOptsEnv s a) Src.socket_set_opts =
+      if s.bound then .error (.exc .RuntimeError) else (callee a).map (fun v => (v, setOptsEnv s a)) := by
+  obtain ⟨l0, l1, l2, l3, l4, l5, l6, l7, l8⟩ := setOptsEnv_lookups s a
+  have hfn : ∀ env, (setOptsMeths callee).fn genWriteName [.meth "s", .sc (.py a.optflag), .sc (.py a.frameTxtime),
+      .sc (.py a.extAddress), .sc (.py a.txpad), .sc (.py a.rxpad), .sc (.py a.rxExtAddress), .sc (.py a.txStmin)] env = callee a := by
+    intro env; simp [setOptsMeths]
+  rw [socket_set_opts_body]
+  cases hb : s.bound
+  · simp only [runFn, execBlock, execStmt, eval, evalArgs, l0, l1, l2, l3, l4, l5, l6, l7, l8, hb, ok_bind, truthy_pbool,
+      Bool.false_eq_true, if_false, eb_genWrite, hfn]
+    cases callee a <;> rfl
+  · simp [runFn, execBlock, execStmt, eval, l0, hb]
+
+/-- **`socket.set_opts` = `setOpts`** (the writer being the model's `writeOpts`, section 3) -/
+theorem socket_set_opts_agrees (s : Sock) (a : OptsArgs) :
+    (runFn (setOptsMeths (fun a' => writeResult (writeOpts s a'))) (setOptsEnv s a) Src.socket_set_opts).map (·.1) =
+      writeResult (setOpts s a) := by
+  rw [socket_set_opts_exec, setOpts]
+  cases s.bound
+  · simp only [Bool.false_eq_true, if_false]
+    cases writeOpts s a <;> rfl
+  · rfl
+
+def setFcOptsEnv (s : Sock) (x y z : PyVal) : Env := fun k =>
+  match k with
+  | "self.bound" => some (pbool s.bound)
+  | "self._socket" => some (.meth "s")
+  | "bs" => some (.sc (.py x))
+  | "stmin" => some (.sc (.py y))
+  | "wftmax" => some (.sc (.py z))
+  | _ => constEnv k
+
+theorem setFcOptsEnv_lookups (s : Sock) (x y z : PyVal) :
+    setFcOptsEnv s x y z "self.bound" = some (pbool s.bound) ∧
+    setFcOptsEnv s x y z "self._socket" = some (.meth "s") ∧
+    setFcOptsEnv s x y z "bs" = some (.sc (.py x)) ∧
+    setFcOptsEnv s x y z "stmin" = some (.sc (.py y)) ∧
+    setFcOptsEnv s x y z "wftmax" = some (.sc (.py z)) := ⟨rfl, rfl, rfl, rfl, rfl⟩
+
+def fcWriteName : String := "opts.FlowControlOpts.write#bs#stmin#wftmax"
+
+def setFcOptsMeths (callee : PyVal → PyVal → PyVal → Except PErr PV) : Meths where
+  fn := fun n args _ =>
+    if n = fcWriteName then
+      match args with
+      | [.meth "s", .sc (.py x), .sc (.py y), .sc (.py z)] => callee x y z
+      | _ => .error (.unsupported "FlowControlOpts.write: arguments")
+    else .error (.unsupported ("call " ++ n))
+  proc := fun n _ _ => .error (.unsupported ("call " ++ n))
+
+theorem eb_fcWrite (vs : List PV) : evalBuiltin fcWriteName vs = none := evalBuiltin_none_of _ _ (by decide)
+
+theorem socket_set_fc_opts_body : Src.socket_set_fc_opts =
+    .cons (.ite (.var "self.bound") (.cons (.raise "RuntimeError") .nil) .nil)
+    (.cons (.ret (.call fcWriteName (.cons (.var "self._socket") (.cons (.var "bs") (.cons (.var "stmin")
+      (.cons (.var "wftmax") .nil)))))) .nil) := rfl
+
+/-- `socket.set_fc_opts`: `RuntimeError` iff bound; otherwise the writer is called once, with the wrapper's arguments keyword by
+    keyword, and its result (value or exception) is the wrapper's; the wrapper object is not modified. -/
+theorem socket_set_fc_opts_exec (callee : PyVal → PyVal → PyVal → Except PErr PV) (s : Sock) (x y z : PyVal) :
+    runFn (setFcOptsMeths callee) (setFcOptsEnv s x y z) Src.socket_set_fc_opts =
+      if s.bound then .error (.exc .RuntimeError) else (callee x y z).map (fun v => (v, setFcOptsEnv s x y z)) := by
+  obtain ⟨l0, l1, l2, l3, l4⟩ := setFcOptsEnv_lookups s x y z
+  have hfn : ∀ env, (setFcOptsMeths callee).fn fcWriteName [.meth "s", .sc (.py x), .sc (.py y), .sc (.py z)] env = callee x y z := by
+    intro env; simp [setFcOptsMeths]
+  rw [socket_set_fc_opts_body]
+  cases hb : s.bound
+  · simp only [runFn, execBlock, execStmt, eval, evalArgs, l0, l1, l2, l3, l4, hb, ok_bind, truthy_pbool,
+      Bool.false_eq_true, if_false, eb_fcWrite, hfn]
+    cases callee x y z <;> rfl
+  · simp [runFn, execBlock, execStmt, eval, l0, hb]
+
+/-- **`socket.set_fc_opts` = `setFcOpts`** (the writer being the model's `writeFc`) -/
+theorem socket_set_fc_opts_agrees (s : Sock) (x y z : PyVal) :
+    (runFn (setFcOptsMeths (fun x' y' z' => writeResult (writeFc s x' y' z'))) (setFcOptsEnv s x y z) Src.socket_set_fc_opts).map (·.1) =
+      writeResult (setFcOpts s x y z) := by
+  rw [socket_set_fc_opts_exec, setFcOpts]
+  cases s.bound
+  · simp only [Bool.false_eq_true, if_false]
+    cases writeFc s x y z <;> rfl
+  · rfl
+
+def setLlOptsEnv (s : Sock) (x y z : PyVal) : Env := fun k =>
+  match k with
+  | "self.bound" => some (pbool s.bound)
+  | "self._socket" => some (.meth "s")
+  | "mtu" => some (.sc (.py x))
+  | "tx_dl" => some (.sc (.py y))
+  | "tx_flags" => some (.sc (.py z))
+  | _ => constEnv k
+
+theorem setLlOptsEnv_lookups (s : Sock) (x y z : PyVal) :
+    setLlOptsEnv s x y z "self.bound" = some (pbool s.bound) ∧
+    setLlOptsEnv s x y z "self._socket" = some (.meth "s") ∧
+    setLlOptsEnv s x y z "mtu" = some (.sc (.py x)) ∧
+    setLlOptsEnv s x y z "tx_dl" = some (.sc (.py y)) ∧
+    setLlOptsEnv s x y z "tx_flags" = some (.sc (.py z)) := ⟨rfl, rfl, rfl, rfl, rfl⟩
+
+def llWriteName : String := "opts.LinkLayerOpts.write#mtu#tx_dl#tx_flags"
+
+def setLlOptsMeths (callee : PyVal → PyVal → PyVal → Except PErr PV) : Meths where
+  fn := fun n args _ =>
+    if n = llWriteName then
+      match args with
+      | [.meth "s", .sc (.py x), .sc (.py y), .sc (.py z)] => callee x y z
+      | _ => .error (.unsupported "LinkLayerOpts.write: arguments")
+    else .error (.unsupported ("call " ++ n))
+  proc := fun n _ _ => .error (.unsupported ("call " ++ n))
+
+theorem eb_llWrite (vs : List PV) : evalBuiltin llWriteName vs = none := evalBuiltin_none_of _ _ (by decide)
+
+theorem socket_set_ll_opts_body : Src.socket_set_ll_opts =
+    .cons (.ite (.var "self.bound") (.cons (.raise "RuntimeError") .nil) .nil)
+    (.cons (.ret (.call llWriteName (.cons (.var "self._socket") (.cons (.var "mtu") (.cons (.var "tx_dl")
+      (.cons (.var "tx_flags") .nil)))))) .nil) := rfl
+
+/-- `socket.set_ll_opts`: `RuntimeError` iff bound; otherwise the writer is called once, with the wrapper's arguments keyword by
+    keyword, and its result (value or exception) is the wrapper's; the wrapper object is not modified. -/
+theorem socket_set_ll_opts_exec (callee : PyVal → PyVal → PyVal → Except PErr PV) (s : Sock) (x y z : PyVal) :
+    runFn (setLlOptsMeths callee) (setLlOptsEnv s x y z) Src.socket_set_ll_opts =
+      if s.bound then .error (.exc .RuntimeError) else (callee x y z).map (fun v => (v, setLlOptsEnv s x y z)) := by
+  obtain ⟨l0, l1, l2, l3, l4⟩ := setLlOptsEnv_lookups s x y z
+  have hfn : ∀ env, (setLlOptsMeths callee).fn llWriteName [.meth "s", .sc (.py x), .sc (.py y), .sc (.py z)] env = callee x y z := by
+    intro env; simp [setLlOptsMeths]
+  rw [socket_set_ll_opts_body]
+  cases hb : s.bound
+  · simp only [runFn, execBlock, execStmt, eval, evalArgs, l0, l1, l2, l3, l4, hb, ok_bind, truthy_pbool,
+      Bool.false_eq_true, if_false, eb_llWrite, hfn]
+    cases callee x y z <;> rfl
+  · simp [runFn, execBlock, execStmt, eval, l0, hb]
+
+/-- **`socket.set_ll_opts` = `setLlOpts`** (the writer being the model's `writeLl`) -/
+theorem socket_set_ll_opts_agrees (s : Sock) (x y z : PyVal) :
+    (runFn (setLlOptsMeths (fun x' y' z' => writeResult (writeLl s x' y' z'))) (setLlOptsEnv s x y z) Src.socket_set_ll_opts).map (·.1) =
+      writeResult (setLlOpts s x y z) := by
+  rw [socket_set_ll_opts_exec, setLlOpts]
+  cases s.bound
+  · simp only [Bool.false_eq_true, if_false]
+    cases writeLl s x y z <;> rfl
+  · rfl
+
 end Isotp.PyAgree
